@@ -1417,6 +1417,146 @@ def graphRow90 : GRow where
   ]
 
 def graphRow91 : GRow where
+  name := "rec_refs_mixed"
+  env := [⟨some 3, [⟨.ptr, 0, .required⟩, ⟨.sliceptr, 0, .maxLen 2⟩, ⟨.slice, 0, .required⟩, ⟨.ptr, 0, .none⟩]⟩]
+  built := true
+  probes := [
+    (.node 5 [.node 5 [.nil, .list [], .list [], .nil], .list [.node 5 [.nil, .list [], .list [], .nil], .node 5 [.nil, .list [], .list [], .nil]], .list [.node 5 [.nil, .list [], .list [], .nil], .node 5 [.nil, .list [], .list [], .nil]], .node 5 [.nil, .list [], .list [], .nil]], .acc),
+    (.node 1 [.node 5 [.nil, .list [], .list [], .nil], .list [.node 5 [.nil, .list [], .list [], .nil], .node 5 [.nil, .list [], .list [], .nil]], .list [.node 5 [.nil, .list [], .list [], .nil], .node 5 [.nil, .list [], .list [], .nil]], .node 5 [.nil, .list [], .list [], .nil]], .rej),
+    (.node 5 [.nil, .list [.node 5 [.nil, .list [], .list [], .nil], .node 5 [.nil, .list [], .list [], .nil]], .list [.node 5 [.nil, .list [], .list [], .nil], .node 5 [.nil, .list [], .list [], .nil]], .node 5 [.nil, .list [], .list [], .nil]], .rej),
+    (.node 5 [.node 1 [.nil, .list [], .list [], .nil], .list [.node 5 [.nil, .list [], .list [], .nil], .node 5 [.nil, .list [], .list [], .nil]], .list [.node 5 [.nil, .list [], .list [], .nil], .node 5 [.nil, .list [], .list [], .nil]], .node 5 [.nil, .list [], .list [], .nil]], .acc),
+    (.node 5 [.node 5 [.nil, .nil, .list [], .nil], .list [.node 5 [.nil, .list [], .list [], .nil], .node 5 [.nil, .list [], .list [], .nil]], .list [.node 5 [.nil, .list [], .list [], .nil], .node 5 [.nil, .list [], .list [], .nil]], .node 5 [.nil, .list [], .list [], .nil]], .acc),
+    (.node 5 [.node 5 [.nil, .list [], .nil, .nil], .list [.node 5 [.nil, .list [], .list [], .nil], .node 5 [.nil, .list [], .list [], .nil]], .list [.node 5 [.nil, .list [], .list [], .nil], .node 5 [.nil, .list [], .list [], .nil]], .node 5 [.nil, .list [], .list [], .nil]], .acc),
+    (.node 5 [.node 5 [.nil, .list [], .list [], .nil], .nil, .list [.node 5 [.nil, .list [], .list [], .nil], .node 5 [.nil, .list [], .list [], .nil]], .node 5 [.nil, .list [], .list [], .nil]], .rej),
+    (.node 5 [.node 5 [.nil, .list [], .list [], .nil], .list [], .list [.node 5 [.nil, .list [], .list [], .nil], .node 5 [.nil, .list [], .list [], .nil]], .node 5 [.nil, .list [], .list [], .nil]], .acc),
+    (.node 5 [.node 5 [.nil, .list [], .list [], .nil], .list [.node 5 [.nil, .list [], .list [], .nil], .node 5 [.nil, .list [], .list [], .nil], .node 5 [.nil, .list [], .list [], .nil]], .list [.node 5 [.nil, .list [], .list [], .nil], .node 5 [.nil, .list [], .list [], .nil]], .node 5 [.nil, .list [], .list [], .nil]], .rej),
+    (.node 5 [.node 5 [.nil, .list [], .list [], .nil], .list [.node 1 [.nil, .list [], .list [], .nil], .node 5 [.nil, .list [], .list [], .nil]], .list [.node 5 [.nil, .list [], .list [], .nil], .node 5 [.nil, .list [], .list [], .nil]], .node 5 [.nil, .list [], .list [], .nil]], .acc),
+    (.node 5 [.node 5 [.nil, .list [], .list [], .nil], .list [.node 5 [.nil, .nil, .list [], .nil], .node 5 [.nil, .list [], .list [], .nil]], .list [.node 5 [.nil, .list [], .list [], .nil], .node 5 [.nil, .list [], .list [], .nil]], .node 5 [.nil, .list [], .list [], .nil]], .acc),
+    (.node 5 [.node 5 [.nil, .list [], .list [], .nil], .list [.node 5 [.nil, .list [], .nil, .nil], .node 5 [.nil, .list [], .list [], .nil]], .list [.node 5 [.nil, .list [], .list [], .nil], .node 5 [.nil, .list [], .list [], .nil]], .node 5 [.nil, .list [], .list [], .nil]], .acc),
+    (.node 5 [.node 5 [.nil, .list [], .list [], .nil], .list [.node 5 [.nil, .list [], .list [], .nil], .node 1 [.nil, .list [], .list [], .nil]], .list [.node 5 [.nil, .list [], .list [], .nil], .node 5 [.nil, .list [], .list [], .nil]], .node 5 [.nil, .list [], .list [], .nil]], .acc),
+    (.node 5 [.node 5 [.nil, .list [], .list [], .nil], .list [.node 5 [.nil, .list [], .list [], .nil], .node 5 [.nil, .nil, .list [], .nil]], .list [.node 5 [.nil, .list [], .list [], .nil], .node 5 [.nil, .list [], .list [], .nil]], .node 5 [.nil, .list [], .list [], .nil]], .acc),
+    (.node 5 [.node 5 [.nil, .list [], .list [], .nil], .list [.node 5 [.nil, .list [], .list [], .nil], .node 5 [.nil, .list [], .nil, .nil]], .list [.node 5 [.nil, .list [], .list [], .nil], .node 5 [.nil, .list [], .list [], .nil]], .node 5 [.nil, .list [], .list [], .nil]], .acc),
+    (.node 5 [.node 5 [.nil, .list [], .list [], .nil], .list [.node 5 [.nil, .list [], .list [], .nil], .node 5 [.nil, .list [], .list [], .nil]], .nil, .node 5 [.nil, .list [], .list [], .nil]], .rej),
+    (.node 5 [.node 5 [.nil, .list [], .list [], .nil], .list [.node 5 [.nil, .list [], .list [], .nil], .node 5 [.nil, .list [], .list [], .nil]], .list [], .node 5 [.nil, .list [], .list [], .nil]], .acc),
+    (.node 5 [.node 5 [.nil, .list [], .list [], .nil], .list [.node 5 [.nil, .list [], .list [], .nil], .node 5 [.nil, .list [], .list [], .nil]], .list [.node 5 [.nil, .list [], .list [], .nil], .node 5 [.nil, .list [], .list [], .nil], .node 5 [.nil, .list [], .list [], .nil]], .node 5 [.nil, .list [], .list [], .nil]], .acc),
+    (.node 5 [.node 5 [.nil, .list [], .list [], .nil], .list [.node 5 [.nil, .list [], .list [], .nil], .node 5 [.nil, .list [], .list [], .nil]], .list [.node 1 [.nil, .list [], .list [], .nil], .node 5 [.nil, .list [], .list [], .nil]], .node 5 [.nil, .list [], .list [], .nil]], .acc),
+    (.node 5 [.node 5 [.nil, .list [], .list [], .nil], .list [.node 5 [.nil, .list [], .list [], .nil], .node 5 [.nil, .list [], .list [], .nil]], .list [.node 5 [.nil, .nil, .list [], .nil], .node 5 [.nil, .list [], .list [], .nil]], .node 5 [.nil, .list [], .list [], .nil]], .acc),
+    (.node 5 [.node 5 [.nil, .list [], .list [], .nil], .list [.node 5 [.nil, .list [], .list [], .nil], .node 5 [.nil, .list [], .list [], .nil]], .list [.node 5 [.nil, .list [], .nil, .nil], .node 5 [.nil, .list [], .list [], .nil]], .node 5 [.nil, .list [], .list [], .nil]], .acc),
+    (.node 5 [.node 5 [.nil, .list [], .list [], .nil], .list [.node 5 [.nil, .list [], .list [], .nil], .node 5 [.nil, .list [], .list [], .nil]], .list [.node 5 [.nil, .list [], .list [], .nil], .node 1 [.nil, .list [], .list [], .nil]], .node 5 [.nil, .list [], .list [], .nil]], .acc),
+    (.node 5 [.node 5 [.nil, .list [], .list [], .nil], .list [.node 5 [.nil, .list [], .list [], .nil], .node 5 [.nil, .list [], .list [], .nil]], .list [.node 5 [.nil, .list [], .list [], .nil], .node 5 [.nil, .nil, .list [], .nil]], .node 5 [.nil, .list [], .list [], .nil]], .acc),
+    (.node 5 [.node 5 [.nil, .list [], .list [], .nil], .list [.node 5 [.nil, .list [], .list [], .nil], .node 5 [.nil, .list [], .list [], .nil]], .list [.node 5 [.nil, .list [], .list [], .nil], .node 5 [.nil, .list [], .nil, .nil]], .node 5 [.nil, .list [], .list [], .nil]], .acc),
+    (.node 5 [.node 5 [.nil, .list [], .list [], .nil], .list [.node 5 [.nil, .list [], .list [], .nil], .node 5 [.nil, .list [], .list [], .nil]], .list [.node 5 [.nil, .list [], .list [], .nil], .node 5 [.nil, .list [], .list [], .nil]], .nil], .acc),
+    (.node 5 [.node 5 [.nil, .list [], .list [], .nil], .list [.node 5 [.nil, .list [], .list [], .nil], .node 5 [.nil, .list [], .list [], .nil]], .list [.node 5 [.nil, .list [], .list [], .nil], .node 5 [.nil, .list [], .list [], .nil]], .node 1 [.nil, .list [], .list [], .nil]], .acc),
+    (.node 5 [.node 5 [.nil, .list [], .list [], .nil], .list [.node 5 [.nil, .list [], .list [], .nil], .node 5 [.nil, .list [], .list [], .nil]], .list [.node 5 [.nil, .list [], .list [], .nil], .node 5 [.nil, .list [], .list [], .nil]], .node 5 [.nil, .nil, .list [], .nil]], .acc),
+    (.node 5 [.node 5 [.nil, .list [], .list [], .nil], .list [.node 5 [.nil, .list [], .list [], .nil], .node 5 [.nil, .list [], .list [], .nil]], .list [.node 5 [.nil, .list [], .list [], .nil], .node 5 [.nil, .list [], .list [], .nil]], .node 5 [.nil, .list [], .nil, .nil]], .acc)
+  ]
+
+def graphRow92 : GRow where
+  name := "rec_shared_below"
+  env := [⟨some 3, [⟨.val, 1, .required⟩, ⟨.ptr, 1, .required⟩, ⟨.slice, 1, .maxLen 2⟩]⟩, ⟨some 3, [⟨.sliceptr, 1, .maxLen 2⟩, ⟨.ptr, 1, .required⟩, ⟨.slice, 1, .required⟩]⟩]
+  built := true
+  probes := [
+    (.node 5 [.node 5 [.list [.node 5 [.list [], .nil, .list []], .node 5 [.list [], .nil, .list []]], .node 5 [.list [], .nil, .list []], .list [.node 5 [.list [], .nil, .list []], .node 5 [.list [], .nil, .list []]]], .node 5 [.list [.node 5 [.list [], .nil, .list []], .node 5 [.list [], .nil, .list []]], .node 5 [.list [], .nil, .list []], .list [.node 5 [.list [], .nil, .list []], .node 5 [.list [], .nil, .list []]]], .list [.node 5 [.list [.node 5 [.list [], .nil, .list []], .node 5 [.list [], .nil, .list []]], .node 5 [.list [], .nil, .list []], .list [.node 5 [.list [], .nil, .list []], .node 5 [.list [], .nil, .list []]]], .node 5 [.list [.node 5 [.list [], .nil, .list []], .node 5 [.list [], .nil, .list []]], .node 5 [.list [], .nil, .list []], .list [.node 5 [.list [], .nil, .list []], .node 5 [.list [], .nil, .list []]]]]], .acc),
+    (.node 1 [.node 5 [.list [.node 5 [.list [], .nil, .list []], .node 5 [.list [], .nil, .list []]], .node 5 [.list [], .nil, .list []], .list [.node 5 [.list [], .nil, .list []], .node 5 [.list [], .nil, .list []]]], .node 5 [.list [.node 5 [.list [], .nil, .list []], .node 5 [.list [], .nil, .list []]], .node 5 [.list [], .nil, .list []], .list [.node 5 [.list [], .nil, .list []], .node 5 [.list [], .nil, .list []]]], .list [.node 5 [.list [.node 5 [.list [], .nil, .list []], .node 5 [.list [], .nil, .list []]], .node 5 [.list [], .nil, .list []], .list [.node 5 [.list [], .nil, .list []], .node 5 [.list [], .nil, .list []]]], .node 5 [.list [.node 5 [.list [], .nil, .list []], .node 5 [.list [], .nil, .list []]], .node 5 [.list [], .nil, .list []], .list [.node 5 [.list [], .nil, .list []], .node 5 [.list [], .nil, .list []]]]]], .rej),
+    (.node 5 [.node 1 [.list [.node 5 [.list [], .nil, .list []], .node 5 [.list [], .nil, .list []]], .node 5 [.list [], .nil, .list []], .list [.node 5 [.list [], .nil, .list []], .node 5 [.list [], .nil, .list []]]], .node 5 [.list [.node 5 [.list [], .nil, .list []], .node 5 [.list [], .nil, .list []]], .node 5 [.list [], .nil, .list []], .list [.node 5 [.list [], .nil, .list []], .node 5 [.list [], .nil, .list []]]], .list [.node 5 [.list [.node 5 [.list [], .nil, .list []], .node 5 [.list [], .nil, .list []]], .node 5 [.list [], .nil, .list []], .list [.node 5 [.list [], .nil, .list []], .node 5 [.list [], .nil, .list []]]], .node 5 [.list [.node 5 [.list [], .nil, .list []], .node 5 [.list [], .nil, .list []]], .node 5 [.list [], .nil, .list []], .list [.node 5 [.list [], .nil, .list []], .node 5 [.list [], .nil, .list []]]]]], .rej),
+    (.node 5 [.node 5 [.nil, .node 5 [.list [], .nil, .list []], .list [.node 5 [.list [], .nil, .list []], .node 5 [.list [], .nil, .list []]]], .node 5 [.list [.node 5 [.list [], .nil, .list []], .node 5 [.list [], .nil, .list []]], .node 5 [.list [], .nil, .list []], .list [.node 5 [.list [], .nil, .list []], .node 5 [.list [], .nil, .list []]]], .list [.node 5 [.list [.node 5 [.list [], .nil, .list []], .node 5 [.list [], .nil, .list []]], .node 5 [.list [], .nil, .list []], .list [.node 5 [.list [], .nil, .list []], .node 5 [.list [], .nil, .list []]]], .node 5 [.list [.node 5 [.list [], .nil, .list []], .node 5 [.list [], .nil, .list []]], .node 5 [.list [], .nil, .list []], .list [.node 5 [.list [], .nil, .list []], .node 5 [.list [], .nil, .list []]]]]], .rej),
+    (.node 5 [.node 5 [.list [], .node 5 [.list [], .nil, .list []], .list [.node 5 [.list [], .nil, .list []], .node 5 [.list [], .nil, .list []]]], .node 5 [.list [.node 5 [.list [], .nil, .list []], .node 5 [.list [], .nil, .list []]], .node 5 [.list [], .nil, .list []], .list [.node 5 [.list [], .nil, .list []], .node 5 [.list [], .nil, .list []]]], .list [.node 5 [.list [.node 5 [.list [], .nil, .list []], .node 5 [.list [], .nil, .list []]], .node 5 [.list [], .nil, .list []], .list [.node 5 [.list [], .nil, .list []], .node 5 [.list [], .nil, .list []]]], .node 5 [.list [.node 5 [.list [], .nil, .list []], .node 5 [.list [], .nil, .list []]], .node 5 [.list [], .nil, .list []], .list [.node 5 [.list [], .nil, .list []], .node 5 [.list [], .nil, .list []]]]]], .acc),
+    (.node 5 [.node 5 [.list [.node 5 [.list [], .nil, .list []], .node 5 [.list [], .nil, .list []], .node 5 [.list [], .nil, .list []]], .node 5 [.list [], .nil, .list []], .list [.node 5 [.list [], .nil, .list []], .node 5 [.list [], .nil, .list []]]], .node 5 [.list [.node 5 [.list [], .nil, .list []], .node 5 [.list [], .nil, .list []]], .node 5 [.list [], .nil, .list []], .list [.node 5 [.list [], .nil, .list []], .node 5 [.list [], .nil, .list []]]], .list [.node 5 [.list [.node 5 [.list [], .nil, .list []], .node 5 [.list [], .nil, .list []]], .node 5 [.list [], .nil, .list []], .list [.node 5 [.list [], .nil, .list []], .node 5 [.list [], .nil, .list []]]], .node 5 [.list [.node 5 [.list [], .nil, .list []], .node 5 [.list [], .nil, .list []]], .node 5 [.list [], .nil, .list []], .list [.node 5 [.list [], .nil, .list []], .node 5 [.list [], .nil, .list []]]]]], .rej),
+    (.node 5 [.node 5 [.list [.node 1 [.list [], .nil, .list []], .node 5 [.list [], .nil, .list []]], .node 5 [.list [], .nil, .list []], .list [.node 5 [.list [], .nil, .list []], .node 5 [.list [], .nil, .list []]]], .node 5 [.list [.node 5 [.list [], .nil, .list []], .node 5 [.list [], .nil, .list []]], .node 5 [.list [], .nil, .list []], .list [.node 5 [.list [], .nil, .list []], .node 5 [.list [], .nil, .list []]]], .list [.node 5 [.list [.node 5 [.list [], .nil, .list []], .node 5 [.list [], .nil, .list []]], .node 5 [.list [], .nil, .list []], .list [.node 5 [.list [], .nil, .list []], .node 5 [.list [], .nil, .list []]]], .node 5 [.list [.node 5 [.list [], .nil, .list []], .node 5 [.list [], .nil, .list []]], .node 5 [.list [], .nil, .list []], .list [.node 5 [.list [], .nil, .list []], .node 5 [.list [], .nil, .list []]]]]], .acc),
+    (.node 5 [.node 5 [.list [.node 5 [.nil, .nil, .list []], .node 5 [.list [], .nil, .list []]], .node 5 [.list [], .nil, .list []], .list [.node 5 [.list [], .nil, .list []], .node 5 [.list [], .nil, .list []]]], .node 5 [.list [.node 5 [.list [], .nil, .list []], .node 5 [.list [], .nil, .list []]], .node 5 [.list [], .nil, .list []], .list [.node 5 [.list [], .nil, .list []], .node 5 [.list [], .nil, .list []]]], .list [.node 5 [.list [.node 5 [.list [], .nil, .list []], .node 5 [.list [], .nil, .list []]], .node 5 [.list [], .nil, .list []], .list [.node 5 [.list [], .nil, .list []], .node 5 [.list [], .nil, .list []]]], .node 5 [.list [.node 5 [.list [], .nil, .list []], .node 5 [.list [], .nil, .list []]], .node 5 [.list [], .nil, .list []], .list [.node 5 [.list [], .nil, .list []], .node 5 [.list [], .nil, .list []]]]]], .acc),
+    (.node 5 [.node 5 [.list [.node 5 [.list [], .nil, .nil], .node 5 [.list [], .nil, .list []]], .node 5 [.list [], .nil, .list []], .list [.node 5 [.list [], .nil, .list []], .node 5 [.list [], .nil, .list []]]], .node 5 [.list [.node 5 [.list [], .nil, .list []], .node 5 [.list [], .nil, .list []]], .node 5 [.list [], .nil, .list []], .list [.node 5 [.list [], .nil, .list []], .node 5 [.list [], .nil, .list []]]], .list [.node 5 [.list [.node 5 [.list [], .nil, .list []], .node 5 [.list [], .nil, .list []]], .node 5 [.list [], .nil, .list []], .list [.node 5 [.list [], .nil, .list []], .node 5 [.list [], .nil, .list []]]], .node 5 [.list [.node 5 [.list [], .nil, .list []], .node 5 [.list [], .nil, .list []]], .node 5 [.list [], .nil, .list []], .list [.node 5 [.list [], .nil, .list []], .node 5 [.list [], .nil, .list []]]]]], .acc),
+    (.node 5 [.node 5 [.list [.node 5 [.list [], .nil, .list []], .node 1 [.list [], .nil, .list []]], .node 5 [.list [], .nil, .list []], .list [.node 5 [.list [], .nil, .list []], .node 5 [.list [], .nil, .list []]]], .node 5 [.list [.node 5 [.list [], .nil, .list []], .node 5 [.list [], .nil, .list []]], .node 5 [.list [], .nil, .list []], .list [.node 5 [.list [], .nil, .list []], .node 5 [.list [], .nil, .list []]]], .list [.node 5 [.list [.node 5 [.list [], .nil, .list []], .node 5 [.list [], .nil, .list []]], .node 5 [.list [], .nil, .list []], .list [.node 5 [.list [], .nil, .list []], .node 5 [.list [], .nil, .list []]]], .node 5 [.list [.node 5 [.list [], .nil, .list []], .node 5 [.list [], .nil, .list []]], .node 5 [.list [], .nil, .list []], .list [.node 5 [.list [], .nil, .list []], .node 5 [.list [], .nil, .list []]]]]], .acc),
+    (.node 5 [.node 5 [.list [.node 5 [.list [], .nil, .list []], .node 5 [.nil, .nil, .list []]], .node 5 [.list [], .nil, .list []], .list [.node 5 [.list [], .nil, .list []], .node 5 [.list [], .nil, .list []]]], .node 5 [.list [.node 5 [.list [], .nil, .list []], .node 5 [.list [], .nil, .list []]], .node 5 [.list [], .nil, .list []], .list [.node 5 [.list [], .nil, .list []], .node 5 [.list [], .nil, .list []]]], .list [.node 5 [.list [.node 5 [.list [], .nil, .list []], .node 5 [.list [], .nil, .list []]], .node 5 [.list [], .nil, .list []], .list [.node 5 [.list [], .nil, .list []], .node 5 [.list [], .nil, .list []]]], .node 5 [.list [.node 5 [.list [], .nil, .list []], .node 5 [.list [], .nil, .list []]], .node 5 [.list [], .nil, .list []], .list [.node 5 [.list [], .nil, .list []], .node 5 [.list [], .nil, .list []]]]]], .acc),
+    (.node 5 [.node 5 [.list [.node 5 [.list [], .nil, .list []], .node 5 [.list [], .nil, .nil]], .node 5 [.list [], .nil, .list []], .list [.node 5 [.list [], .nil, .list []], .node 5 [.list [], .nil, .list []]]], .node 5 [.list [.node 5 [.list [], .nil, .list []], .node 5 [.list [], .nil, .list []]], .node 5 [.list [], .nil, .list []], .list [.node 5 [.list [], .nil, .list []], .node 5 [.list [], .nil, .list []]]], .list [.node 5 [.list [.node 5 [.list [], .nil, .list []], .node 5 [.list [], .nil, .list []]], .node 5 [.list [], .nil, .list []], .list [.node 5 [.list [], .nil, .list []], .node 5 [.list [], .nil, .list []]]], .node 5 [.list [.node 5 [.list [], .nil, .list []], .node 5 [.list [], .nil, .list []]], .node 5 [.list [], .nil, .list []], .list [.node 5 [.list [], .nil, .list []], .node 5 [.list [], .nil, .list []]]]]], .acc),
+    (.node 5 [.node 5 [.list [.node 5 [.list [], .nil, .list []], .node 5 [.list [], .nil, .list []]], .nil, .list [.node 5 [.list [], .nil, .list []], .node 5 [.list [], .nil, .list []]]], .node 5 [.list [.node 5 [.list [], .nil, .list []], .node 5 [.list [], .nil, .list []]], .node 5 [.list [], .nil, .list []], .list [.node 5 [.list [], .nil, .list []], .node 5 [.list [], .nil, .list []]]], .list [.node 5 [.list [.node 5 [.list [], .nil, .list []], .node 5 [.list [], .nil, .list []]], .node 5 [.list [], .nil, .list []], .list [.node 5 [.list [], .nil, .list []], .node 5 [.list [], .nil, .list []]]], .node 5 [.list [.node 5 [.list [], .nil, .list []], .node 5 [.list [], .nil, .list []]], .node 5 [.list [], .nil, .list []], .list [.node 5 [.list [], .nil, .list []], .node 5 [.list [], .nil, .list []]]]]], .rej),
+    (.node 5 [.node 5 [.list [.node 5 [.list [], .nil, .list []], .node 5 [.list [], .nil, .list []]], .node 1 [.list [], .nil, .list []], .list [.node 5 [.list [], .nil, .list []], .node 5 [.list [], .nil, .list []]]], .node 5 [.list [.node 5 [.list [], .nil, .list []], .node 5 [.list [], .nil, .list []]], .node 5 [.list [], .nil, .list []], .list [.node 5 [.list [], .nil, .list []], .node 5 [.list [], .nil, .list []]]], .list [.node 5 [.list [.node 5 [.list [], .nil, .list []], .node 5 [.list [], .nil, .list []]], .node 5 [.list [], .nil, .list []], .list [.node 5 [.list [], .nil, .list []], .node 5 [.list [], .nil, .list []]]], .node 5 [.list [.node 5 [.list [], .nil, .list []], .node 5 [.list [], .nil, .list []]], .node 5 [.list [], .nil, .list []], .list [.node 5 [.list [], .nil, .list []], .node 5 [.list [], .nil, .list []]]]]], .acc),
+    (.node 5 [.node 5 [.list [.node 5 [.list [], .nil, .list []], .node 5 [.list [], .nil, .list []]], .node 5 [.nil, .nil, .list []], .list [.node 5 [.list [], .nil, .list []], .node 5 [.list [], .nil, .list []]]], .node 5 [.list [.node 5 [.list [], .nil, .list []], .node 5 [.list [], .nil, .list []]], .node 5 [.list [], .nil, .list []], .list [.node 5 [.list [], .nil, .list []], .node 5 [.list [], .nil, .list []]]], .list [.node 5 [.list [.node 5 [.list [], .nil, .list []], .node 5 [.list [], .nil, .list []]], .node 5 [.list [], .nil, .list []], .list [.node 5 [.list [], .nil, .list []], .node 5 [.list [], .nil, .list []]]], .node 5 [.list [.node 5 [.list [], .nil, .list []], .node 5 [.list [], .nil, .list []]], .node 5 [.list [], .nil, .list []], .list [.node 5 [.list [], .nil, .list []], .node 5 [.list [], .nil, .list []]]]]], .acc),
+    (.node 5 [.node 5 [.list [.node 5 [.list [], .nil, .list []], .node 5 [.list [], .nil, .list []]], .node 5 [.list [], .nil, .nil], .list [.node 5 [.list [], .nil, .list []], .node 5 [.list [], .nil, .list []]]], .node 5 [.list [.node 5 [.list [], .nil, .list []], .node 5 [.list [], .nil, .list []]], .node 5 [.list [], .nil, .list []], .list [.node 5 [.list [], .nil, .list []], .node 5 [.list [], .nil, .list []]]], .list [.node 5 [.list [.node 5 [.list [], .nil, .list []], .node 5 [.list [], .nil, .list []]], .node 5 [.list [], .nil, .list []], .list [.node 5 [.list [], .nil, .list []], .node 5 [.list [], .nil, .list []]]], .node 5 [.list [.node 5 [.list [], .nil, .list []], .node 5 [.list [], .nil, .list []]], .node 5 [.list [], .nil, .list []], .list [.node 5 [.list [], .nil, .list []], .node 5 [.list [], .nil, .list []]]]]], .acc),
+    (.node 5 [.node 5 [.list [.node 5 [.list [], .nil, .list []], .node 5 [.list [], .nil, .list []]], .node 5 [.list [], .nil, .list []], .nil], .node 5 [.list [.node 5 [.list [], .nil, .list []], .node 5 [.list [], .nil, .list []]], .node 5 [.list [], .nil, .list []], .list [.node 5 [.list [], .nil, .list []], .node 5 [.list [], .nil, .list []]]], .list [.node 5 [.list [.node 5 [.list [], .nil, .list []], .node 5 [.list [], .nil, .list []]], .node 5 [.list [], .nil, .list []], .list [.node 5 [.list [], .nil, .list []], .node 5 [.list [], .nil, .list []]]], .node 5 [.list [.node 5 [.list [], .nil, .list []], .node 5 [.list [], .nil, .list []]], .node 5 [.list [], .nil, .list []], .list [.node 5 [.list [], .nil, .list []], .node 5 [.list [], .nil, .list []]]]]], .rej),
+    (.node 5 [.node 5 [.list [.node 5 [.list [], .nil, .list []], .node 5 [.list [], .nil, .list []]], .node 5 [.list [], .nil, .list []], .list []], .node 5 [.list [.node 5 [.list [], .nil, .list []], .node 5 [.list [], .nil, .list []]], .node 5 [.list [], .nil, .list []], .list [.node 5 [.list [], .nil, .list []], .node 5 [.list [], .nil, .list []]]], .list [.node 5 [.list [.node 5 [.list [], .nil, .list []], .node 5 [.list [], .nil, .list []]], .node 5 [.list [], .nil, .list []], .list [.node 5 [.list [], .nil, .list []], .node 5 [.list [], .nil, .list []]]], .node 5 [.list [.node 5 [.list [], .nil, .list []], .node 5 [.list [], .nil, .list []]], .node 5 [.list [], .nil, .list []], .list [.node 5 [.list [], .nil, .list []], .node 5 [.list [], .nil, .list []]]]]], .acc),
+    (.node 5 [.node 5 [.list [.node 5 [.list [], .nil, .list []], .node 5 [.list [], .nil, .list []]], .node 5 [.list [], .nil, .list []], .list [.node 5 [.list [], .nil, .list []], .node 5 [.list [], .nil, .list []], .node 5 [.list [], .nil, .list []]]], .node 5 [.list [.node 5 [.list [], .nil, .list []], .node 5 [.list [], .nil, .list []]], .node 5 [.list [], .nil, .list []], .list [.node 5 [.list [], .nil, .list []], .node 5 [.list [], .nil, .list []]]], .list [.node 5 [.list [.node 5 [.list [], .nil, .list []], .node 5 [.list [], .nil, .list []]], .node 5 [.list [], .nil, .list []], .list [.node 5 [.list [], .nil, .list []], .node 5 [.list [], .nil, .list []]]], .node 5 [.list [.node 5 [.list [], .nil, .list []], .node 5 [.list [], .nil, .list []]], .node 5 [.list [], .nil, .list []], .list [.node 5 [.list [], .nil, .list []], .node 5 [.list [], .nil, .list []]]]]], .acc),
+    (.node 5 [.node 5 [.list [.node 5 [.list [], .nil, .list []], .node 5 [.list [], .nil, .list []]], .node 5 [.list [], .nil, .list []], .list [.node 1 [.list [], .nil, .list []], .node 5 [.list [], .nil, .list []]]], .node 5 [.list [.node 5 [.list [], .nil, .list []], .node 5 [.list [], .nil, .list []]], .node 5 [.list [], .nil, .list []], .list [.node 5 [.list [], .nil, .list []], .node 5 [.list [], .nil, .list []]]], .list [.node 5 [.list [.node 5 [.list [], .nil, .list []], .node 5 [.list [], .nil, .list []]], .node 5 [.list [], .nil, .list []], .list [.node 5 [.list [], .nil, .list []], .node 5 [.list [], .nil, .list []]]], .node 5 [.list [.node 5 [.list [], .nil, .list []], .node 5 [.list [], .nil, .list []]], .node 5 [.list [], .nil, .list []], .list [.node 5 [.list [], .nil, .list []], .node 5 [.list [], .nil, .list []]]]]], .acc),
+    (.node 5 [.node 5 [.list [.node 5 [.list [], .nil, .list []], .node 5 [.list [], .nil, .list []]], .node 5 [.list [], .nil, .list []], .list [.node 5 [.nil, .nil, .list []], .node 5 [.list [], .nil, .list []]]], .node 5 [.list [.node 5 [.list [], .nil, .list []], .node 5 [.list [], .nil, .list []]], .node 5 [.list [], .nil, .list []], .list [.node 5 [.list [], .nil, .list []], .node 5 [.list [], .nil, .list []]]], .list [.node 5 [.list [.node 5 [.list [], .nil, .list []], .node 5 [.list [], .nil, .list []]], .node 5 [.list [], .nil, .list []], .list [.node 5 [.list [], .nil, .list []], .node 5 [.list [], .nil, .list []]]], .node 5 [.list [.node 5 [.list [], .nil, .list []], .node 5 [.list [], .nil, .list []]], .node 5 [.list [], .nil, .list []], .list [.node 5 [.list [], .nil, .list []], .node 5 [.list [], .nil, .list []]]]]], .acc),
+    (.node 5 [.node 5 [.list [.node 5 [.list [], .nil, .list []], .node 5 [.list [], .nil, .list []]], .node 5 [.list [], .nil, .list []], .list [.node 5 [.list [], .nil, .nil], .node 5 [.list [], .nil, .list []]]], .node 5 [.list [.node 5 [.list [], .nil, .list []], .node 5 [.list [], .nil, .list []]], .node 5 [.list [], .nil, .list []], .list [.node 5 [.list [], .nil, .list []], .node 5 [.list [], .nil, .list []]]], .list [.node 5 [.list [.node 5 [.list [], .nil, .list []], .node 5 [.list [], .nil, .list []]], .node 5 [.list [], .nil, .list []], .list [.node 5 [.list [], .nil, .list []], .node 5 [.list [], .nil, .list []]]], .node 5 [.list [.node 5 [.list [], .nil, .list []], .node 5 [.list [], .nil, .list []]], .node 5 [.list [], .nil, .list []], .list [.node 5 [.list [], .nil, .list []], .node 5 [.list [], .nil, .list []]]]]], .acc),
+    (.node 5 [.node 5 [.list [.node 5 [.list [], .nil, .list []], .node 5 [.list [], .nil, .list []]], .node 5 [.list [], .nil, .list []], .list [.node 5 [.list [], .nil, .list []], .node 1 [.list [], .nil, .list []]]], .node 5 [.list [.node 5 [.list [], .nil, .list []], .node 5 [.list [], .nil, .list []]], .node 5 [.list [], .nil, .list []], .list [.node 5 [.list [], .nil, .list []], .node 5 [.list [], .nil, .list []]]], .list [.node 5 [.list [.node 5 [.list [], .nil, .list []], .node 5 [.list [], .nil, .list []]], .node 5 [.list [], .nil, .list []], .list [.node 5 [.list [], .nil, .list []], .node 5 [.list [], .nil, .list []]]], .node 5 [.list [.node 5 [.list [], .nil, .list []], .node 5 [.list [], .nil, .list []]], .node 5 [.list [], .nil, .list []], .list [.node 5 [.list [], .nil, .list []], .node 5 [.list [], .nil, .list []]]]]], .acc),
+    (.node 5 [.node 5 [.list [.node 5 [.list [], .nil, .list []], .node 5 [.list [], .nil, .list []]], .node 5 [.list [], .nil, .list []], .list [.node 5 [.list [], .nil, .list []], .node 5 [.nil, .nil, .list []]]], .node 5 [.list [.node 5 [.list [], .nil, .list []], .node 5 [.list [], .nil, .list []]], .node 5 [.list [], .nil, .list []], .list [.node 5 [.list [], .nil, .list []], .node 5 [.list [], .nil, .list []]]], .list [.node 5 [.list [.node 5 [.list [], .nil, .list []], .node 5 [.list [], .nil, .list []]], .node 5 [.list [], .nil, .list []], .list [.node 5 [.list [], .nil, .list []], .node 5 [.list [], .nil, .list []]]], .node 5 [.list [.node 5 [.list [], .nil, .list []], .node 5 [.list [], .nil, .list []]], .node 5 [.list [], .nil, .list []], .list [.node 5 [.list [], .nil, .list []], .node 5 [.list [], .nil, .list []]]]]], .acc),
+    (.node 5 [.node 5 [.list [.node 5 [.list [], .nil, .list []], .node 5 [.list [], .nil, .list []]], .node 5 [.list [], .nil, .list []], .list [.node 5 [.list [], .nil, .list []], .node 5 [.list [], .nil, .nil]]], .node 5 [.list [.node 5 [.list [], .nil, .list []], .node 5 [.list [], .nil, .list []]], .node 5 [.list [], .nil, .list []], .list [.node 5 [.list [], .nil, .list []], .node 5 [.list [], .nil, .list []]]], .list [.node 5 [.list [.node 5 [.list [], .nil, .list []], .node 5 [.list [], .nil, .list []]], .node 5 [.list [], .nil, .list []], .list [.node 5 [.list [], .nil, .list []], .node 5 [.list [], .nil, .list []]]], .node 5 [.list [.node 5 [.list [], .nil, .list []], .node 5 [.list [], .nil, .list []]], .node 5 [.list [], .nil, .list []], .list [.node 5 [.list [], .nil, .list []], .node 5 [.list [], .nil, .list []]]]]], .acc),
+    (.node 5 [.node 5 [.list [.node 5 [.list [], .nil, .list []], .node 5 [.list [], .nil, .list []]], .node 5 [.list [], .nil, .list []], .list [.node 5 [.list [], .nil, .list []], .node 5 [.list [], .nil, .list []]]], .nil, .list [.node 5 [.list [.node 5 [.list [], .nil, .list []], .node 5 [.list [], .nil, .list []]], .node 5 [.list [], .nil, .list []], .list [.node 5 [.list [], .nil, .list []], .node 5 [.list [], .nil, .list []]]], .node 5 [.list [.node 5 [.list [], .nil, .list []], .node 5 [.list [], .nil, .list []]], .node 5 [.list [], .nil, .list []], .list [.node 5 [.list [], .nil, .list []], .node 5 [.list [], .nil, .list []]]]]], .rej),
+    (.node 5 [.node 5 [.list [.node 5 [.list [], .nil, .list []], .node 5 [.list [], .nil, .list []]], .node 5 [.list [], .nil, .list []], .list [.node 5 [.list [], .nil, .list []], .node 5 [.list [], .nil, .list []]]], .node 1 [.list [.node 5 [.list [], .nil, .list []], .node 5 [.list [], .nil, .list []]], .node 5 [.list [], .nil, .list []], .list [.node 5 [.list [], .nil, .list []], .node 5 [.list [], .nil, .list []]]], .list [.node 5 [.list [.node 5 [.list [], .nil, .list []], .node 5 [.list [], .nil, .list []]], .node 5 [.list [], .nil, .list []], .list [.node 5 [.list [], .nil, .list []], .node 5 [.list [], .nil, .list []]]], .node 5 [.list [.node 5 [.list [], .nil, .list []], .node 5 [.list [], .nil, .list []]], .node 5 [.list [], .nil, .list []], .list [.node 5 [.list [], .nil, .list []], .node 5 [.list [], .nil, .list []]]]]], .rej),
+    (.node 5 [.node 5 [.list [.node 5 [.list [], .nil, .list []], .node 5 [.list [], .nil, .list []]], .node 5 [.list [], .nil, .list []], .list [.node 5 [.list [], .nil, .list []], .node 5 [.list [], .nil, .list []]]], .node 5 [.nil, .node 5 [.list [], .nil, .list []], .list [.node 5 [.list [], .nil, .list []], .node 5 [.list [], .nil, .list []]]], .list [.node 5 [.list [.node 5 [.list [], .nil, .list []], .node 5 [.list [], .nil, .list []]], .node 5 [.list [], .nil, .list []], .list [.node 5 [.list [], .nil, .list []], .node 5 [.list [], .nil, .list []]]], .node 5 [.list [.node 5 [.list [], .nil, .list []], .node 5 [.list [], .nil, .list []]], .node 5 [.list [], .nil, .list []], .list [.node 5 [.list [], .nil, .list []], .node 5 [.list [], .nil, .list []]]]]], .rej),
+    (.node 5 [.node 5 [.list [.node 5 [.list [], .nil, .list []], .node 5 [.list [], .nil, .list []]], .node 5 [.list [], .nil, .list []], .list [.node 5 [.list [], .nil, .list []], .node 5 [.list [], .nil, .list []]]], .node 5 [.list [], .node 5 [.list [], .nil, .list []], .list [.node 5 [.list [], .nil, .list []], .node 5 [.list [], .nil, .list []]]], .list [.node 5 [.list [.node 5 [.list [], .nil, .list []], .node 5 [.list [], .nil, .list []]], .node 5 [.list [], .nil, .list []], .list [.node 5 [.list [], .nil, .list []], .node 5 [.list [], .nil, .list []]]], .node 5 [.list [.node 5 [.list [], .nil, .list []], .node 5 [.list [], .nil, .list []]], .node 5 [.list [], .nil, .list []], .list [.node 5 [.list [], .nil, .list []], .node 5 [.list [], .nil, .list []]]]]], .acc),
+    (.node 5 [.node 5 [.list [.node 5 [.list [], .nil, .list []], .node 5 [.list [], .nil, .list []]], .node 5 [.list [], .nil, .list []], .list [.node 5 [.list [], .nil, .list []], .node 5 [.list [], .nil, .list []]]], .node 5 [.list [.node 5 [.list [], .nil, .list []], .node 5 [.list [], .nil, .list []], .node 5 [.list [], .nil, .list []]], .node 5 [.list [], .nil, .list []], .list [.node 5 [.list [], .nil, .list []], .node 5 [.list [], .nil, .list []]]], .list [.node 5 [.list [.node 5 [.list [], .nil, .list []], .node 5 [.list [], .nil, .list []]], .node 5 [.list [], .nil, .list []], .list [.node 5 [.list [], .nil, .list []], .node 5 [.list [], .nil, .list []]]], .node 5 [.list [.node 5 [.list [], .nil, .list []], .node 5 [.list [], .nil, .list []]], .node 5 [.list [], .nil, .list []], .list [.node 5 [.list [], .nil, .list []], .node 5 [.list [], .nil, .list []]]]]], .rej),
+    (.node 5 [.node 5 [.list [.node 5 [.list [], .nil, .list []], .node 5 [.list [], .nil, .list []]], .node 5 [.list [], .nil, .list []], .list [.node 5 [.list [], .nil, .list []], .node 5 [.list [], .nil, .list []]]], .node 5 [.list [.node 1 [.list [], .nil, .list []], .node 5 [.list [], .nil, .list []]], .node 5 [.list [], .nil, .list []], .list [.node 5 [.list [], .nil, .list []], .node 5 [.list [], .nil, .list []]]], .list [.node 5 [.list [.node 5 [.list [], .nil, .list []], .node 5 [.list [], .nil, .list []]], .node 5 [.list [], .nil, .list []], .list [.node 5 [.list [], .nil, .list []], .node 5 [.list [], .nil, .list []]]], .node 5 [.list [.node 5 [.list [], .nil, .list []], .node 5 [.list [], .nil, .list []]], .node 5 [.list [], .nil, .list []], .list [.node 5 [.list [], .nil, .list []], .node 5 [.list [], .nil, .list []]]]]], .acc),
+    (.node 5 [.node 5 [.list [.node 5 [.list [], .nil, .list []], .node 5 [.list [], .nil, .list []]], .node 5 [.list [], .nil, .list []], .list [.node 5 [.list [], .nil, .list []], .node 5 [.list [], .nil, .list []]]], .node 5 [.list [.node 5 [.nil, .nil, .list []], .node 5 [.list [], .nil, .list []]], .node 5 [.list [], .nil, .list []], .list [.node 5 [.list [], .nil, .list []], .node 5 [.list [], .nil, .list []]]], .list [.node 5 [.list [.node 5 [.list [], .nil, .list []], .node 5 [.list [], .nil, .list []]], .node 5 [.list [], .nil, .list []], .list [.node 5 [.list [], .nil, .list []], .node 5 [.list [], .nil, .list []]]], .node 5 [.list [.node 5 [.list [], .nil, .list []], .node 5 [.list [], .nil, .list []]], .node 5 [.list [], .nil, .list []], .list [.node 5 [.list [], .nil, .list []], .node 5 [.list [], .nil, .list []]]]]], .acc),
+    (.node 5 [.node 5 [.list [.node 5 [.list [], .nil, .list []], .node 5 [.list [], .nil, .list []]], .node 5 [.list [], .nil, .list []], .list [.node 5 [.list [], .nil, .list []], .node 5 [.list [], .nil, .list []]]], .node 5 [.list [.node 5 [.list [], .nil, .nil], .node 5 [.list [], .nil, .list []]], .node 5 [.list [], .nil, .list []], .list [.node 5 [.list [], .nil, .list []], .node 5 [.list [], .nil, .list []]]], .list [.node 5 [.list [.node 5 [.list [], .nil, .list []], .node 5 [.list [], .nil, .list []]], .node 5 [.list [], .nil, .list []], .list [.node 5 [.list [], .nil, .list []], .node 5 [.list [], .nil, .list []]]], .node 5 [.list [.node 5 [.list [], .nil, .list []], .node 5 [.list [], .nil, .list []]], .node 5 [.list [], .nil, .list []], .list [.node 5 [.list [], .nil, .list []], .node 5 [.list [], .nil, .list []]]]]], .acc),
+    (.node 5 [.node 5 [.list [.node 5 [.list [], .nil, .list []], .node 5 [.list [], .nil, .list []]], .node 5 [.list [], .nil, .list []], .list [.node 5 [.list [], .nil, .list []], .node 5 [.list [], .nil, .list []]]], .node 5 [.list [.node 5 [.list [], .nil, .list []], .node 1 [.list [], .nil, .list []]], .node 5 [.list [], .nil, .list []], .list [.node 5 [.list [], .nil, .list []], .node 5 [.list [], .nil, .list []]]], .list [.node 5 [.list [.node 5 [.list [], .nil, .list []], .node 5 [.list [], .nil, .list []]], .node 5 [.list [], .nil, .list []], .list [.node 5 [.list [], .nil, .list []], .node 5 [.list [], .nil, .list []]]], .node 5 [.list [.node 5 [.list [], .nil, .list []], .node 5 [.list [], .nil, .list []]], .node 5 [.list [], .nil, .list []], .list [.node 5 [.list [], .nil, .list []], .node 5 [.list [], .nil, .list []]]]]], .acc),
+    (.node 5 [.node 5 [.list [.node 5 [.list [], .nil, .list []], .node 5 [.list [], .nil, .list []]], .node 5 [.list [], .nil, .list []], .list [.node 5 [.list [], .nil, .list []], .node 5 [.list [], .nil, .list []]]], .node 5 [.list [.node 5 [.list [], .nil, .list []], .node 5 [.nil, .nil, .list []]], .node 5 [.list [], .nil, .list []], .list [.node 5 [.list [], .nil, .list []], .node 5 [.list [], .nil, .list []]]], .list [.node 5 [.list [.node 5 [.list [], .nil, .list []], .node 5 [.list [], .nil, .list []]], .node 5 [.list [], .nil, .list []], .list [.node 5 [.list [], .nil, .list []], .node 5 [.list [], .nil, .list []]]], .node 5 [.list [.node 5 [.list [], .nil, .list []], .node 5 [.list [], .nil, .list []]], .node 5 [.list [], .nil, .list []], .list [.node 5 [.list [], .nil, .list []], .node 5 [.list [], .nil, .list []]]]]], .acc),
+    (.node 5 [.node 5 [.list [.node 5 [.list [], .nil, .list []], .node 5 [.list [], .nil, .list []]], .node 5 [.list [], .nil, .list []], .list [.node 5 [.list [], .nil, .list []], .node 5 [.list [], .nil, .list []]]], .node 5 [.list [.node 5 [.list [], .nil, .list []], .node 5 [.list [], .nil, .nil]], .node 5 [.list [], .nil, .list []], .list [.node 5 [.list [], .nil, .list []], .node 5 [.list [], .nil, .list []]]], .list [.node 5 [.list [.node 5 [.list [], .nil, .list []], .node 5 [.list [], .nil, .list []]], .node 5 [.list [], .nil, .list []], .list [.node 5 [.list [], .nil, .list []], .node 5 [.list [], .nil, .list []]]], .node 5 [.list [.node 5 [.list [], .nil, .list []], .node 5 [.list [], .nil, .list []]], .node 5 [.list [], .nil, .list []], .list [.node 5 [.list [], .nil, .list []], .node 5 [.list [], .nil, .list []]]]]], .acc),
+    (.node 5 [.node 5 [.list [.node 5 [.list [], .nil, .list []], .node 5 [.list [], .nil, .list []]], .node 5 [.list [], .nil, .list []], .list [.node 5 [.list [], .nil, .list []], .node 5 [.list [], .nil, .list []]]], .node 5 [.list [.node 5 [.list [], .nil, .list []], .node 5 [.list [], .nil, .list []]], .nil, .list [.node 5 [.list [], .nil, .list []], .node 5 [.list [], .nil, .list []]]], .list [.node 5 [.list [.node 5 [.list [], .nil, .list []], .node 5 [.list [], .nil, .list []]], .node 5 [.list [], .nil, .list []], .list [.node 5 [.list [], .nil, .list []], .node 5 [.list [], .nil, .list []]]], .node 5 [.list [.node 5 [.list [], .nil, .list []], .node 5 [.list [], .nil, .list []]], .node 5 [.list [], .nil, .list []], .list [.node 5 [.list [], .nil, .list []], .node 5 [.list [], .nil, .list []]]]]], .rej),
+    (.node 5 [.node 5 [.list [.node 5 [.list [], .nil, .list []], .node 5 [.list [], .nil, .list []]], .node 5 [.list [], .nil, .list []], .list [.node 5 [.list [], .nil, .list []], .node 5 [.list [], .nil, .list []]]], .node 5 [.list [.node 5 [.list [], .nil, .list []], .node 5 [.list [], .nil, .list []]], .node 1 [.list [], .nil, .list []], .list [.node 5 [.list [], .nil, .list []], .node 5 [.list [], .nil, .list []]]], .list [.node 5 [.list [.node 5 [.list [], .nil, .list []], .node 5 [.list [], .nil, .list []]], .node 5 [.list [], .nil, .list []], .list [.node 5 [.list [], .nil, .list []], .node 5 [.list [], .nil, .list []]]], .node 5 [.list [.node 5 [.list [], .nil, .list []], .node 5 [.list [], .nil, .list []]], .node 5 [.list [], .nil, .list []], .list [.node 5 [.list [], .nil, .list []], .node 5 [.list [], .nil, .list []]]]]], .acc),
+    (.node 5 [.node 5 [.list [.node 5 [.list [], .nil, .list []], .node 5 [.list [], .nil, .list []]], .node 5 [.list [], .nil, .list []], .list [.node 5 [.list [], .nil, .list []], .node 5 [.list [], .nil, .list []]]], .node 5 [.list [.node 5 [.list [], .nil, .list []], .node 5 [.list [], .nil, .list []]], .node 5 [.nil, .nil, .list []], .list [.node 5 [.list [], .nil, .list []], .node 5 [.list [], .nil, .list []]]], .list [.node 5 [.list [.node 5 [.list [], .nil, .list []], .node 5 [.list [], .nil, .list []]], .node 5 [.list [], .nil, .list []], .list [.node 5 [.list [], .nil, .list []], .node 5 [.list [], .nil, .list []]]], .node 5 [.list [.node 5 [.list [], .nil, .list []], .node 5 [.list [], .nil, .list []]], .node 5 [.list [], .nil, .list []], .list [.node 5 [.list [], .nil, .list []], .node 5 [.list [], .nil, .list []]]]]], .acc),
+    (.node 5 [.node 5 [.list [.node 5 [.list [], .nil, .list []], .node 5 [.list [], .nil, .list []]], .node 5 [.list [], .nil, .list []], .list [.node 5 [.list [], .nil, .list []], .node 5 [.list [], .nil, .list []]]], .node 5 [.list [.node 5 [.list [], .nil, .list []], .node 5 [.list [], .nil, .list []]], .node 5 [.list [], .nil, .nil], .list [.node 5 [.list [], .nil, .list []], .node 5 [.list [], .nil, .list []]]], .list [.node 5 [.list [.node 5 [.list [], .nil, .list []], .node 5 [.list [], .nil, .list []]], .node 5 [.list [], .nil, .list []], .list [.node 5 [.list [], .nil, .list []], .node 5 [.list [], .nil, .list []]]], .node 5 [.list [.node 5 [.list [], .nil, .list []], .node 5 [.list [], .nil, .list []]], .node 5 [.list [], .nil, .list []], .list [.node 5 [.list [], .nil, .list []], .node 5 [.list [], .nil, .list []]]]]], .acc),
+    (.node 5 [.node 5 [.list [.node 5 [.list [], .nil, .list []], .node 5 [.list [], .nil, .list []]], .node 5 [.list [], .nil, .list []], .list [.node 5 [.list [], .nil, .list []], .node 5 [.list [], .nil, .list []]]], .node 5 [.list [.node 5 [.list [], .nil, .list []], .node 5 [.list [], .nil, .list []]], .node 5 [.list [], .nil, .list []], .nil], .list [.node 5 [.list [.node 5 [.list [], .nil, .list []], .node 5 [.list [], .nil, .list []]], .node 5 [.list [], .nil, .list []], .list [.node 5 [.list [], .nil, .list []], .node 5 [.list [], .nil, .list []]]], .node 5 [.list [.node 5 [.list [], .nil, .list []], .node 5 [.list [], .nil, .list []]], .node 5 [.list [], .nil, .list []], .list [.node 5 [.list [], .nil, .list []], .node 5 [.list [], .nil, .list []]]]]], .rej),
+    (.node 5 [.node 5 [.list [.node 5 [.list [], .nil, .list []], .node 5 [.list [], .nil, .list []]], .node 5 [.list [], .nil, .list []], .list [.node 5 [.list [], .nil, .list []], .node 5 [.list [], .nil, .list []]]], .node 5 [.list [.node 5 [.list [], .nil, .list []], .node 5 [.list [], .nil, .list []]], .node 5 [.list [], .nil, .list []], .list []], .list [.node 5 [.list [.node 5 [.list [], .nil, .list []], .node 5 [.list [], .nil, .list []]], .node 5 [.list [], .nil, .list []], .list [.node 5 [.list [], .nil, .list []], .node 5 [.list [], .nil, .list []]]], .node 5 [.list [.node 5 [.list [], .nil, .list []], .node 5 [.list [], .nil, .list []]], .node 5 [.list [], .nil, .list []], .list [.node 5 [.list [], .nil, .list []], .node 5 [.list [], .nil, .list []]]]]], .acc),
+    (.node 5 [.node 5 [.list [.node 5 [.list [], .nil, .list []], .node 5 [.list [], .nil, .list []]], .node 5 [.list [], .nil, .list []], .list [.node 5 [.list [], .nil, .list []], .node 5 [.list [], .nil, .list []]]], .node 5 [.list [.node 5 [.list [], .nil, .list []], .node 5 [.list [], .nil, .list []]], .node 5 [.list [], .nil, .list []], .list [.node 5 [.list [], .nil, .list []], .node 5 [.list [], .nil, .list []], .node 5 [.list [], .nil, .list []]]], .list [.node 5 [.list [.node 5 [.list [], .nil, .list []], .node 5 [.list [], .nil, .list []]], .node 5 [.list [], .nil, .list []], .list [.node 5 [.list [], .nil, .list []], .node 5 [.list [], .nil, .list []]]], .node 5 [.list [.node 5 [.list [], .nil, .list []], .node 5 [.list [], .nil, .list []]], .node 5 [.list [], .nil, .list []], .list [.node 5 [.list [], .nil, .list []], .node 5 [.list [], .nil, .list []]]]]], .acc),
+    (.node 5 [.node 5 [.list [.node 5 [.list [], .nil, .list []], .node 5 [.list [], .nil, .list []]], .node 5 [.list [], .nil, .list []], .list [.node 5 [.list [], .nil, .list []], .node 5 [.list [], .nil, .list []]]], .node 5 [.list [.node 5 [.list [], .nil, .list []], .node 5 [.list [], .nil, .list []]], .node 5 [.list [], .nil, .list []], .list [.node 1 [.list [], .nil, .list []], .node 5 [.list [], .nil, .list []]]], .list [.node 5 [.list [.node 5 [.list [], .nil, .list []], .node 5 [.list [], .nil, .list []]], .node 5 [.list [], .nil, .list []], .list [.node 5 [.list [], .nil, .list []], .node 5 [.list [], .nil, .list []]]], .node 5 [.list [.node 5 [.list [], .nil, .list []], .node 5 [.list [], .nil, .list []]], .node 5 [.list [], .nil, .list []], .list [.node 5 [.list [], .nil, .list []], .node 5 [.list [], .nil, .list []]]]]], .acc),
+    (.node 5 [.node 5 [.list [.node 5 [.list [], .nil, .list []], .node 5 [.list [], .nil, .list []]], .node 5 [.list [], .nil, .list []], .list [.node 5 [.list [], .nil, .list []], .node 5 [.list [], .nil, .list []]]], .node 5 [.list [.node 5 [.list [], .nil, .list []], .node 5 [.list [], .nil, .list []]], .node 5 [.list [], .nil, .list []], .list [.node 5 [.nil, .nil, .list []], .node 5 [.list [], .nil, .list []]]], .list [.node 5 [.list [.node 5 [.list [], .nil, .list []], .node 5 [.list [], .nil, .list []]], .node 5 [.list [], .nil, .list []], .list [.node 5 [.list [], .nil, .list []], .node 5 [.list [], .nil, .list []]]], .node 5 [.list [.node 5 [.list [], .nil, .list []], .node 5 [.list [], .nil, .list []]], .node 5 [.list [], .nil, .list []], .list [.node 5 [.list [], .nil, .list []], .node 5 [.list [], .nil, .list []]]]]], .acc),
+    (.node 5 [.node 5 [.list [.node 5 [.list [], .nil, .list []], .node 5 [.list [], .nil, .list []]], .node 5 [.list [], .nil, .list []], .list [.node 5 [.list [], .nil, .list []], .node 5 [.list [], .nil, .list []]]], .node 5 [.list [.node 5 [.list [], .nil, .list []], .node 5 [.list [], .nil, .list []]], .node 5 [.list [], .nil, .list []], .list [.node 5 [.list [], .nil, .nil], .node 5 [.list [], .nil, .list []]]], .list [.node 5 [.list [.node 5 [.list [], .nil, .list []], .node 5 [.list [], .nil, .list []]], .node 5 [.list [], .nil, .list []], .list [.node 5 [.list [], .nil, .list []], .node 5 [.list [], .nil, .list []]]], .node 5 [.list [.node 5 [.list [], .nil, .list []], .node 5 [.list [], .nil, .list []]], .node 5 [.list [], .nil, .list []], .list [.node 5 [.list [], .nil, .list []], .node 5 [.list [], .nil, .list []]]]]], .acc),
+    (.node 5 [.node 5 [.list [.node 5 [.list [], .nil, .list []], .node 5 [.list [], .nil, .list []]], .node 5 [.list [], .nil, .list []], .list [.node 5 [.list [], .nil, .list []], .node 5 [.list [], .nil, .list []]]], .node 5 [.list [.node 5 [.list [], .nil, .list []], .node 5 [.list [], .nil, .list []]], .node 5 [.list [], .nil, .list []], .list [.node 5 [.list [], .nil, .list []], .node 1 [.list [], .nil, .list []]]], .list [.node 5 [.list [.node 5 [.list [], .nil, .list []], .node 5 [.list [], .nil, .list []]], .node 5 [.list [], .nil, .list []], .list [.node 5 [.list [], .nil, .list []], .node 5 [.list [], .nil, .list []]]], .node 5 [.list [.node 5 [.list [], .nil, .list []], .node 5 [.list [], .nil, .list []]], .node 5 [.list [], .nil, .list []], .list [.node 5 [.list [], .nil, .list []], .node 5 [.list [], .nil, .list []]]]]], .acc),
+    (.node 5 [.node 5 [.list [.node 5 [.list [], .nil, .list []], .node 5 [.list [], .nil, .list []]], .node 5 [.list [], .nil, .list []], .list [.node 5 [.list [], .nil, .list []], .node 5 [.list [], .nil, .list []]]], .node 5 [.list [.node 5 [.list [], .nil, .list []], .node 5 [.list [], .nil, .list []]], .node 5 [.list [], .nil, .list []], .list [.node 5 [.list [], .nil, .list []], .node 5 [.nil, .nil, .list []]]], .list [.node 5 [.list [.node 5 [.list [], .nil, .list []], .node 5 [.list [], .nil, .list []]], .node 5 [.list [], .nil, .list []], .list [.node 5 [.list [], .nil, .list []], .node 5 [.list [], .nil, .list []]]], .node 5 [.list [.node 5 [.list [], .nil, .list []], .node 5 [.list [], .nil, .list []]], .node 5 [.list [], .nil, .list []], .list [.node 5 [.list [], .nil, .list []], .node 5 [.list [], .nil, .list []]]]]], .acc),
+    (.node 5 [.node 5 [.list [.node 5 [.list [], .nil, .list []], .node 5 [.list [], .nil, .list []]], .node 5 [.list [], .nil, .list []], .list [.node 5 [.list [], .nil, .list []], .node 5 [.list [], .nil, .list []]]], .node 5 [.list [.node 5 [.list [], .nil, .list []], .node 5 [.list [], .nil, .list []]], .node 5 [.list [], .nil, .list []], .list [.node 5 [.list [], .nil, .list []], .node 5 [.list [], .nil, .nil]]], .list [.node 5 [.list [.node 5 [.list [], .nil, .list []], .node 5 [.list [], .nil, .list []]], .node 5 [.list [], .nil, .list []], .list [.node 5 [.list [], .nil, .list []], .node 5 [.list [], .nil, .list []]]], .node 5 [.list [.node 5 [.list [], .nil, .list []], .node 5 [.list [], .nil, .list []]], .node 5 [.list [], .nil, .list []], .list [.node 5 [.list [], .nil, .list []], .node 5 [.list [], .nil, .list []]]]]], .acc),
+    (.node 5 [.node 5 [.list [.node 5 [.list [], .nil, .list []], .node 5 [.list [], .nil, .list []]], .node 5 [.list [], .nil, .list []], .list [.node 5 [.list [], .nil, .list []], .node 5 [.list [], .nil, .list []]]], .node 5 [.list [.node 5 [.list [], .nil, .list []], .node 5 [.list [], .nil, .list []]], .node 5 [.list [], .nil, .list []], .list [.node 5 [.list [], .nil, .list []], .node 5 [.list [], .nil, .list []]]], .nil], .rej),
+    (.node 5 [.node 5 [.list [.node 5 [.list [], .nil, .list []], .node 5 [.list [], .nil, .list []]], .node 5 [.list [], .nil, .list []], .list [.node 5 [.list [], .nil, .list []], .node 5 [.list [], .nil, .list []]]], .node 5 [.list [.node 5 [.list [], .nil, .list []], .node 5 [.list [], .nil, .list []]], .node 5 [.list [], .nil, .list []], .list [.node 5 [.list [], .nil, .list []], .node 5 [.list [], .nil, .list []]]], .list []], .acc),
+    (.node 5 [.node 5 [.list [.node 5 [.list [], .nil, .list []], .node 5 [.list [], .nil, .list []]], .node 5 [.list [], .nil, .list []], .list [.node 5 [.list [], .nil, .list []], .node 5 [.list [], .nil, .list []]]], .node 5 [.list [.node 5 [.list [], .nil, .list []], .node 5 [.list [], .nil, .list []]], .node 5 [.list [], .nil, .list []], .list [.node 5 [.list [], .nil, .list []], .node 5 [.list [], .nil, .list []]]], .list [.node 5 [.list [.node 5 [.list [], .nil, .list []], .node 5 [.list [], .nil, .list []]], .node 5 [.list [], .nil, .list []], .list [.node 5 [.list [], .nil, .list []], .node 5 [.list [], .nil, .list []]]], .node 5 [.list [.node 5 [.list [], .nil, .list []], .node 5 [.list [], .nil, .list []]], .node 5 [.list [], .nil, .list []], .list [.node 5 [.list [], .nil, .list []], .node 5 [.list [], .nil, .list []]]], .node 5 [.list [.node 5 [.list [], .nil, .list []], .node 5 [.list [], .nil, .list []]], .node 5 [.list [], .nil, .list []], .list [.node 5 [.list [], .nil, .list []], .node 5 [.list [], .nil, .list []]]]]], .rej),
+    (.node 5 [.node 5 [.list [.node 5 [.list [], .nil, .list []], .node 5 [.list [], .nil, .list []]], .node 5 [.list [], .nil, .list []], .list [.node 5 [.list [], .nil, .list []], .node 5 [.list [], .nil, .list []]]], .node 5 [.list [.node 5 [.list [], .nil, .list []], .node 5 [.list [], .nil, .list []]], .node 5 [.list [], .nil, .list []], .list [.node 5 [.list [], .nil, .list []], .node 5 [.list [], .nil, .list []]]], .list [.node 1 [.list [.node 5 [.list [], .nil, .list []], .node 5 [.list [], .nil, .list []]], .node 5 [.list [], .nil, .list []], .list [.node 5 [.list [], .nil, .list []], .node 5 [.list [], .nil, .list []]]], .node 5 [.list [.node 5 [.list [], .nil, .list []], .node 5 [.list [], .nil, .list []]], .node 5 [.list [], .nil, .list []], .list [.node 5 [.list [], .nil, .list []], .node 5 [.list [], .nil, .list []]]]]], .rej),
+    (.node 5 [.node 5 [.list [.node 5 [.list [], .nil, .list []], .node 5 [.list [], .nil, .list []]], .node 5 [.list [], .nil, .list []], .list [.node 5 [.list [], .nil, .list []], .node 5 [.list [], .nil, .list []]]], .node 5 [.list [.node 5 [.list [], .nil, .list []], .node 5 [.list [], .nil, .list []]], .node 5 [.list [], .nil, .list []], .list [.node 5 [.list [], .nil, .list []], .node 5 [.list [], .nil, .list []]]], .list [.node 5 [.nil, .node 5 [.list [], .nil, .list []], .list [.node 5 [.list [], .nil, .list []], .node 5 [.list [], .nil, .list []]]], .node 5 [.list [.node 5 [.list [], .nil, .list []], .node 5 [.list [], .nil, .list []]], .node 5 [.list [], .nil, .list []], .list [.node 5 [.list [], .nil, .list []], .node 5 [.list [], .nil, .list []]]]]], .rej),
+    (.node 5 [.node 5 [.list [.node 5 [.list [], .nil, .list []], .node 5 [.list [], .nil, .list []]], .node 5 [.list [], .nil, .list []], .list [.node 5 [.list [], .nil, .list []], .node 5 [.list [], .nil, .list []]]], .node 5 [.list [.node 5 [.list [], .nil, .list []], .node 5 [.list [], .nil, .list []]], .node 5 [.list [], .nil, .list []], .list [.node 5 [.list [], .nil, .list []], .node 5 [.list [], .nil, .list []]]], .list [.node 5 [.list [], .node 5 [.list [], .nil, .list []], .list [.node 5 [.list [], .nil, .list []], .node 5 [.list [], .nil, .list []]]], .node 5 [.list [.node 5 [.list [], .nil, .list []], .node 5 [.list [], .nil, .list []]], .node 5 [.list [], .nil, .list []], .list [.node 5 [.list [], .nil, .list []], .node 5 [.list [], .nil, .list []]]]]], .acc),
+    (.node 5 [.node 5 [.list [.node 5 [.list [], .nil, .list []], .node 5 [.list [], .nil, .list []]], .node 5 [.list [], .nil, .list []], .list [.node 5 [.list [], .nil, .list []], .node 5 [.list [], .nil, .list []]]], .node 5 [.list [.node 5 [.list [], .nil, .list []], .node 5 [.list [], .nil, .list []]], .node 5 [.list [], .nil, .list []], .list [.node 5 [.list [], .nil, .list []], .node 5 [.list [], .nil, .list []]]], .list [.node 5 [.list [.node 5 [.list [], .nil, .list []], .node 5 [.list [], .nil, .list []], .node 5 [.list [], .nil, .list []]], .node 5 [.list [], .nil, .list []], .list [.node 5 [.list [], .nil, .list []], .node 5 [.list [], .nil, .list []]]], .node 5 [.list [.node 5 [.list [], .nil, .list []], .node 5 [.list [], .nil, .list []]], .node 5 [.list [], .nil, .list []], .list [.node 5 [.list [], .nil, .list []], .node 5 [.list [], .nil, .list []]]]]], .rej),
+    (.node 5 [.node 5 [.list [.node 5 [.list [], .nil, .list []], .node 5 [.list [], .nil, .list []]], .node 5 [.list [], .nil, .list []], .list [.node 5 [.list [], .nil, .list []], .node 5 [.list [], .nil, .list []]]], .node 5 [.list [.node 5 [.list [], .nil, .list []], .node 5 [.list [], .nil, .list []]], .node 5 [.list [], .nil, .list []], .list [.node 5 [.list [], .nil, .list []], .node 5 [.list [], .nil, .list []]]], .list [.node 5 [.list [.node 1 [.list [], .nil, .list []], .node 5 [.list [], .nil, .list []]], .node 5 [.list [], .nil, .list []], .list [.node 5 [.list [], .nil, .list []], .node 5 [.list [], .nil, .list []]]], .node 5 [.list [.node 5 [.list [], .nil, .list []], .node 5 [.list [], .nil, .list []]], .node 5 [.list [], .nil, .list []], .list [.node 5 [.list [], .nil, .list []], .node 5 [.list [], .nil, .list []]]]]], .acc),
+    (.node 5 [.node 5 [.list [.node 5 [.list [], .nil, .list []], .node 5 [.list [], .nil, .list []]], .node 5 [.list [], .nil, .list []], .list [.node 5 [.list [], .nil, .list []], .node 5 [.list [], .nil, .list []]]], .node 5 [.list [.node 5 [.list [], .nil, .list []], .node 5 [.list [], .nil, .list []]], .node 5 [.list [], .nil, .list []], .list [.node 5 [.list [], .nil, .list []], .node 5 [.list [], .nil, .list []]]], .list [.node 5 [.list [.node 5 [.nil, .nil, .list []], .node 5 [.list [], .nil, .list []]], .node 5 [.list [], .nil, .list []], .list [.node 5 [.list [], .nil, .list []], .node 5 [.list [], .nil, .list []]]], .node 5 [.list [.node 5 [.list [], .nil, .list []], .node 5 [.list [], .nil, .list []]], .node 5 [.list [], .nil, .list []], .list [.node 5 [.list [], .nil, .list []], .node 5 [.list [], .nil, .list []]]]]], .acc),
+    (.node 5 [.node 5 [.list [.node 5 [.list [], .nil, .list []], .node 5 [.list [], .nil, .list []]], .node 5 [.list [], .nil, .list []], .list [.node 5 [.list [], .nil, .list []], .node 5 [.list [], .nil, .list []]]], .node 5 [.list [.node 5 [.list [], .nil, .list []], .node 5 [.list [], .nil, .list []]], .node 5 [.list [], .nil, .list []], .list [.node 5 [.list [], .nil, .list []], .node 5 [.list [], .nil, .list []]]], .list [.node 5 [.list [.node 5 [.list [], .nil, .nil], .node 5 [.list [], .nil, .list []]], .node 5 [.list [], .nil, .list []], .list [.node 5 [.list [], .nil, .list []], .node 5 [.list [], .nil, .list []]]], .node 5 [.list [.node 5 [.list [], .nil, .list []], .node 5 [.list [], .nil, .list []]], .node 5 [.list [], .nil, .list []], .list [.node 5 [.list [], .nil, .list []], .node 5 [.list [], .nil, .list []]]]]], .acc),
+    (.node 5 [.node 5 [.list [.node 5 [.list [], .nil, .list []], .node 5 [.list [], .nil, .list []]], .node 5 [.list [], .nil, .list []], .list [.node 5 [.list [], .nil, .list []], .node 5 [.list [], .nil, .list []]]], .node 5 [.list [.node 5 [.list [], .nil, .list []], .node 5 [.list [], .nil, .list []]], .node 5 [.list [], .nil, .list []], .list [.node 5 [.list [], .nil, .list []], .node 5 [.list [], .nil, .list []]]], .list [.node 5 [.list [.node 5 [.list [], .nil, .list []], .node 1 [.list [], .nil, .list []]], .node 5 [.list [], .nil, .list []], .list [.node 5 [.list [], .nil, .list []], .node 5 [.list [], .nil, .list []]]], .node 5 [.list [.node 5 [.list [], .nil, .list []], .node 5 [.list [], .nil, .list []]], .node 5 [.list [], .nil, .list []], .list [.node 5 [.list [], .nil, .list []], .node 5 [.list [], .nil, .list []]]]]], .acc),
+    (.node 5 [.node 5 [.list [.node 5 [.list [], .nil, .list []], .node 5 [.list [], .nil, .list []]], .node 5 [.list [], .nil, .list []], .list [.node 5 [.list [], .nil, .list []], .node 5 [.list [], .nil, .list []]]], .node 5 [.list [.node 5 [.list [], .nil, .list []], .node 5 [.list [], .nil, .list []]], .node 5 [.list [], .nil, .list []], .list [.node 5 [.list [], .nil, .list []], .node 5 [.list [], .nil, .list []]]], .list [.node 5 [.list [.node 5 [.list [], .nil, .list []], .node 5 [.nil, .nil, .list []]], .node 5 [.list [], .nil, .list []], .list [.node 5 [.list [], .nil, .list []], .node 5 [.list [], .nil, .list []]]], .node 5 [.list [.node 5 [.list [], .nil, .list []], .node 5 [.list [], .nil, .list []]], .node 5 [.list [], .nil, .list []], .list [.node 5 [.list [], .nil, .list []], .node 5 [.list [], .nil, .list []]]]]], .acc),
+    (.node 5 [.node 5 [.list [.node 5 [.list [], .nil, .list []], .node 5 [.list [], .nil, .list []]], .node 5 [.list [], .nil, .list []], .list [.node 5 [.list [], .nil, .list []], .node 5 [.list [], .nil, .list []]]], .node 5 [.list [.node 5 [.list [], .nil, .list []], .node 5 [.list [], .nil, .list []]], .node 5 [.list [], .nil, .list []], .list [.node 5 [.list [], .nil, .list []], .node 5 [.list [], .nil, .list []]]], .list [.node 5 [.list [.node 5 [.list [], .nil, .list []], .node 5 [.list [], .nil, .nil]], .node 5 [.list [], .nil, .list []], .list [.node 5 [.list [], .nil, .list []], .node 5 [.list [], .nil, .list []]]], .node 5 [.list [.node 5 [.list [], .nil, .list []], .node 5 [.list [], .nil, .list []]], .node 5 [.list [], .nil, .list []], .list [.node 5 [.list [], .nil, .list []], .node 5 [.list [], .nil, .list []]]]]], .acc),
+    (.node 5 [.node 5 [.list [.node 5 [.list [], .nil, .list []], .node 5 [.list [], .nil, .list []]], .node 5 [.list [], .nil, .list []], .list [.node 5 [.list [], .nil, .list []], .node 5 [.list [], .nil, .list []]]], .node 5 [.list [.node 5 [.list [], .nil, .list []], .node 5 [.list [], .nil, .list []]], .node 5 [.list [], .nil, .list []], .list [.node 5 [.list [], .nil, .list []], .node 5 [.list [], .nil, .list []]]], .list [.node 5 [.list [.node 5 [.list [], .nil, .list []], .node 5 [.list [], .nil, .list []]], .nil, .list [.node 5 [.list [], .nil, .list []], .node 5 [.list [], .nil, .list []]]], .node 5 [.list [.node 5 [.list [], .nil, .list []], .node 5 [.list [], .nil, .list []]], .node 5 [.list [], .nil, .list []], .list [.node 5 [.list [], .nil, .list []], .node 5 [.list [], .nil, .list []]]]]], .rej),
+    (.node 5 [.node 5 [.list [.node 5 [.list [], .nil, .list []], .node 5 [.list [], .nil, .list []]], .node 5 [.list [], .nil, .list []], .list [.node 5 [.list [], .nil, .list []], .node 5 [.list [], .nil, .list []]]], .node 5 [.list [.node 5 [.list [], .nil, .list []], .node 5 [.list [], .nil, .list []]], .node 5 [.list [], .nil, .list []], .list [.node 5 [.list [], .nil, .list []], .node 5 [.list [], .nil, .list []]]], .list [.node 5 [.list [.node 5 [.list [], .nil, .list []], .node 5 [.list [], .nil, .list []]], .node 1 [.list [], .nil, .list []], .list [.node 5 [.list [], .nil, .list []], .node 5 [.list [], .nil, .list []]]], .node 5 [.list [.node 5 [.list [], .nil, .list []], .node 5 [.list [], .nil, .list []]], .node 5 [.list [], .nil, .list []], .list [.node 5 [.list [], .nil, .list []], .node 5 [.list [], .nil, .list []]]]]], .acc),
+    (.node 5 [.node 5 [.list [.node 5 [.list [], .nil, .list []], .node 5 [.list [], .nil, .list []]], .node 5 [.list [], .nil, .list []], .list [.node 5 [.list [], .nil, .list []], .node 5 [.list [], .nil, .list []]]], .node 5 [.list [.node 5 [.list [], .nil, .list []], .node 5 [.list [], .nil, .list []]], .node 5 [.list [], .nil, .list []], .list [.node 5 [.list [], .nil, .list []], .node 5 [.list [], .nil, .list []]]], .list [.node 5 [.list [.node 5 [.list [], .nil, .list []], .node 5 [.list [], .nil, .list []]], .node 5 [.nil, .nil, .list []], .list [.node 5 [.list [], .nil, .list []], .node 5 [.list [], .nil, .list []]]], .node 5 [.list [.node 5 [.list [], .nil, .list []], .node 5 [.list [], .nil, .list []]], .node 5 [.list [], .nil, .list []], .list [.node 5 [.list [], .nil, .list []], .node 5 [.list [], .nil, .list []]]]]], .acc),
+    (.node 5 [.node 5 [.list [.node 5 [.list [], .nil, .list []], .node 5 [.list [], .nil, .list []]], .node 5 [.list [], .nil, .list []], .list [.node 5 [.list [], .nil, .list []], .node 5 [.list [], .nil, .list []]]], .node 5 [.list [.node 5 [.list [], .nil, .list []], .node 5 [.list [], .nil, .list []]], .node 5 [.list [], .nil, .list []], .list [.node 5 [.list [], .nil, .list []], .node 5 [.list [], .nil, .list []]]], .list [.node 5 [.list [.node 5 [.list [], .nil, .list []], .node 5 [.list [], .nil, .list []]], .node 5 [.list [], .nil, .nil], .list [.node 5 [.list [], .nil, .list []], .node 5 [.list [], .nil, .list []]]], .node 5 [.list [.node 5 [.list [], .nil, .list []], .node 5 [.list [], .nil, .list []]], .node 5 [.list [], .nil, .list []], .list [.node 5 [.list [], .nil, .list []], .node 5 [.list [], .nil, .list []]]]]], .acc),
+    (.node 5 [.node 5 [.list [.node 5 [.list [], .nil, .list []], .node 5 [.list [], .nil, .list []]], .node 5 [.list [], .nil, .list []], .list [.node 5 [.list [], .nil, .list []], .node 5 [.list [], .nil, .list []]]], .node 5 [.list [.node 5 [.list [], .nil, .list []], .node 5 [.list [], .nil, .list []]], .node 5 [.list [], .nil, .list []], .list [.node 5 [.list [], .nil, .list []], .node 5 [.list [], .nil, .list []]]], .list [.node 5 [.list [.node 5 [.list [], .nil, .list []], .node 5 [.list [], .nil, .list []]], .node 5 [.list [], .nil, .list []], .nil], .node 5 [.list [.node 5 [.list [], .nil, .list []], .node 5 [.list [], .nil, .list []]], .node 5 [.list [], .nil, .list []], .list [.node 5 [.list [], .nil, .list []], .node 5 [.list [], .nil, .list []]]]]], .rej),
+    (.node 5 [.node 5 [.list [.node 5 [.list [], .nil, .list []], .node 5 [.list [], .nil, .list []]], .node 5 [.list [], .nil, .list []], .list [.node 5 [.list [], .nil, .list []], .node 5 [.list [], .nil, .list []]]], .node 5 [.list [.node 5 [.list [], .nil, .list []], .node 5 [.list [], .nil, .list []]], .node 5 [.list [], .nil, .list []], .list [.node 5 [.list [], .nil, .list []], .node 5 [.list [], .nil, .list []]]], .list [.node 5 [.list [.node 5 [.list [], .nil, .list []], .node 5 [.list [], .nil, .list []]], .node 5 [.list [], .nil, .list []], .list []], .node 5 [.list [.node 5 [.list [], .nil, .list []], .node 5 [.list [], .nil, .list []]], .node 5 [.list [], .nil, .list []], .list [.node 5 [.list [], .nil, .list []], .node 5 [.list [], .nil, .list []]]]]], .acc),
+    (.node 5 [.node 5 [.list [.node 5 [.list [], .nil, .list []], .node 5 [.list [], .nil, .list []]], .node 5 [.list [], .nil, .list []], .list [.node 5 [.list [], .nil, .list []], .node 5 [.list [], .nil, .list []]]], .node 5 [.list [.node 5 [.list [], .nil, .list []], .node 5 [.list [], .nil, .list []]], .node 5 [.list [], .nil, .list []], .list [.node 5 [.list [], .nil, .list []], .node 5 [.list [], .nil, .list []]]], .list [.node 5 [.list [.node 5 [.list [], .nil, .list []], .node 5 [.list [], .nil, .list []]], .node 5 [.list [], .nil, .list []], .list [.node 5 [.list [], .nil, .list []], .node 5 [.list [], .nil, .list []], .node 5 [.list [], .nil, .list []]]], .node 5 [.list [.node 5 [.list [], .nil, .list []], .node 5 [.list [], .nil, .list []]], .node 5 [.list [], .nil, .list []], .list [.node 5 [.list [], .nil, .list []], .node 5 [.list [], .nil, .list []]]]]], .acc),
+    (.node 5 [.node 5 [.list [.node 5 [.list [], .nil, .list []], .node 5 [.list [], .nil, .list []]], .node 5 [.list [], .nil, .list []], .list [.node 5 [.list [], .nil, .list []], .node 5 [.list [], .nil, .list []]]], .node 5 [.list [.node 5 [.list [], .nil, .list []], .node 5 [.list [], .nil, .list []]], .node 5 [.list [], .nil, .list []], .list [.node 5 [.list [], .nil, .list []], .node 5 [.list [], .nil, .list []]]], .list [.node 5 [.list [.node 5 [.list [], .nil, .list []], .node 5 [.list [], .nil, .list []]], .node 5 [.list [], .nil, .list []], .list [.node 1 [.list [], .nil, .list []], .node 5 [.list [], .nil, .list []]]], .node 5 [.list [.node 5 [.list [], .nil, .list []], .node 5 [.list [], .nil, .list []]], .node 5 [.list [], .nil, .list []], .list [.node 5 [.list [], .nil, .list []], .node 5 [.list [], .nil, .list []]]]]], .acc),
+    (.node 5 [.node 5 [.list [.node 5 [.list [], .nil, .list []], .node 5 [.list [], .nil, .list []]], .node 5 [.list [], .nil, .list []], .list [.node 5 [.list [], .nil, .list []], .node 5 [.list [], .nil, .list []]]], .node 5 [.list [.node 5 [.list [], .nil, .list []], .node 5 [.list [], .nil, .list []]], .node 5 [.list [], .nil, .list []], .list [.node 5 [.list [], .nil, .list []], .node 5 [.list [], .nil, .list []]]], .list [.node 5 [.list [.node 5 [.list [], .nil, .list []], .node 5 [.list [], .nil, .list []]], .node 5 [.list [], .nil, .list []], .list [.node 5 [.nil, .nil, .list []], .node 5 [.list [], .nil, .list []]]], .node 5 [.list [.node 5 [.list [], .nil, .list []], .node 5 [.list [], .nil, .list []]], .node 5 [.list [], .nil, .list []], .list [.node 5 [.list [], .nil, .list []], .node 5 [.list [], .nil, .list []]]]]], .acc),
+    (.node 5 [.node 5 [.list [.node 5 [.list [], .nil, .list []], .node 5 [.list [], .nil, .list []]], .node 5 [.list [], .nil, .list []], .list [.node 5 [.list [], .nil, .list []], .node 5 [.list [], .nil, .list []]]], .node 5 [.list [.node 5 [.list [], .nil, .list []], .node 5 [.list [], .nil, .list []]], .node 5 [.list [], .nil, .list []], .list [.node 5 [.list [], .nil, .list []], .node 5 [.list [], .nil, .list []]]], .list [.node 5 [.list [.node 5 [.list [], .nil, .list []], .node 5 [.list [], .nil, .list []]], .node 5 [.list [], .nil, .list []], .list [.node 5 [.list [], .nil, .nil], .node 5 [.list [], .nil, .list []]]], .node 5 [.list [.node 5 [.list [], .nil, .list []], .node 5 [.list [], .nil, .list []]], .node 5 [.list [], .nil, .list []], .list [.node 5 [.list [], .nil, .list []], .node 5 [.list [], .nil, .list []]]]]], .acc),
+    (.node 5 [.node 5 [.list [.node 5 [.list [], .nil, .list []], .node 5 [.list [], .nil, .list []]], .node 5 [.list [], .nil, .list []], .list [.node 5 [.list [], .nil, .list []], .node 5 [.list [], .nil, .list []]]], .node 5 [.list [.node 5 [.list [], .nil, .list []], .node 5 [.list [], .nil, .list []]], .node 5 [.list [], .nil, .list []], .list [.node 5 [.list [], .nil, .list []], .node 5 [.list [], .nil, .list []]]], .list [.node 5 [.list [.node 5 [.list [], .nil, .list []], .node 5 [.list [], .nil, .list []]], .node 5 [.list [], .nil, .list []], .list [.node 5 [.list [], .nil, .list []], .node 1 [.list [], .nil, .list []]]], .node 5 [.list [.node 5 [.list [], .nil, .list []], .node 5 [.list [], .nil, .list []]], .node 5 [.list [], .nil, .list []], .list [.node 5 [.list [], .nil, .list []], .node 5 [.list [], .nil, .list []]]]]], .acc),
+    (.node 5 [.node 5 [.list [.node 5 [.list [], .nil, .list []], .node 5 [.list [], .nil, .list []]], .node 5 [.list [], .nil, .list []], .list [.node 5 [.list [], .nil, .list []], .node 5 [.list [], .nil, .list []]]], .node 5 [.list [.node 5 [.list [], .nil, .list []], .node 5 [.list [], .nil, .list []]], .node 5 [.list [], .nil, .list []], .list [.node 5 [.list [], .nil, .list []], .node 5 [.list [], .nil, .list []]]], .list [.node 5 [.list [.node 5 [.list [], .nil, .list []], .node 5 [.list [], .nil, .list []]], .node 5 [.list [], .nil, .list []], .list [.node 5 [.list [], .nil, .list []], .node 5 [.nil, .nil, .list []]]], .node 5 [.list [.node 5 [.list [], .nil, .list []], .node 5 [.list [], .nil, .list []]], .node 5 [.list [], .nil, .list []], .list [.node 5 [.list [], .nil, .list []], .node 5 [.list [], .nil, .list []]]]]], .acc),
+    (.node 5 [.node 5 [.list [.node 5 [.list [], .nil, .list []], .node 5 [.list [], .nil, .list []]], .node 5 [.list [], .nil, .list []], .list [.node 5 [.list [], .nil, .list []], .node 5 [.list [], .nil, .list []]]], .node 5 [.list [.node 5 [.list [], .nil, .list []], .node 5 [.list [], .nil, .list []]], .node 5 [.list [], .nil, .list []], .list [.node 5 [.list [], .nil, .list []], .node 5 [.list [], .nil, .list []]]], .list [.node 5 [.list [.node 5 [.list [], .nil, .list []], .node 5 [.list [], .nil, .list []]], .node 5 [.list [], .nil, .list []], .list [.node 5 [.list [], .nil, .list []], .node 5 [.list [], .nil, .nil]]], .node 5 [.list [.node 5 [.list [], .nil, .list []], .node 5 [.list [], .nil, .list []]], .node 5 [.list [], .nil, .list []], .list [.node 5 [.list [], .nil, .list []], .node 5 [.list [], .nil, .list []]]]]], .acc),
+    (.node 5 [.node 5 [.list [.node 5 [.list [], .nil, .list []], .node 5 [.list [], .nil, .list []]], .node 5 [.list [], .nil, .list []], .list [.node 5 [.list [], .nil, .list []], .node 5 [.list [], .nil, .list []]]], .node 5 [.list [.node 5 [.list [], .nil, .list []], .node 5 [.list [], .nil, .list []]], .node 5 [.list [], .nil, .list []], .list [.node 5 [.list [], .nil, .list []], .node 5 [.list [], .nil, .list []]]], .list [.node 5 [.list [.node 5 [.list [], .nil, .list []], .node 5 [.list [], .nil, .list []]], .node 5 [.list [], .nil, .list []], .list [.node 5 [.list [], .nil, .list []], .node 5 [.list [], .nil, .list []]]], .node 1 [.list [.node 5 [.list [], .nil, .list []], .node 5 [.list [], .nil, .list []]], .node 5 [.list [], .nil, .list []], .list [.node 5 [.list [], .nil, .list []], .node 5 [.list [], .nil, .list []]]]]], .rej),
+    (.node 5 [.node 5 [.list [.node 5 [.list [], .nil, .list []], .node 5 [.list [], .nil, .list []]], .node 5 [.list [], .nil, .list []], .list [.node 5 [.list [], .nil, .list []], .node 5 [.list [], .nil, .list []]]], .node 5 [.list [.node 5 [.list [], .nil, .list []], .node 5 [.list [], .nil, .list []]], .node 5 [.list [], .nil, .list []], .list [.node 5 [.list [], .nil, .list []], .node 5 [.list [], .nil, .list []]]], .list [.node 5 [.list [.node 5 [.list [], .nil, .list []], .node 5 [.list [], .nil, .list []]], .node 5 [.list [], .nil, .list []], .list [.node 5 [.list [], .nil, .list []], .node 5 [.list [], .nil, .list []]]], .node 5 [.nil, .node 5 [.list [], .nil, .list []], .list [.node 5 [.list [], .nil, .list []], .node 5 [.list [], .nil, .list []]]]]], .rej),
+    (.node 5 [.node 5 [.list [.node 5 [.list [], .nil, .list []], .node 5 [.list [], .nil, .list []]], .node 5 [.list [], .nil, .list []], .list [.node 5 [.list [], .nil, .list []], .node 5 [.list [], .nil, .list []]]], .node 5 [.list [.node 5 [.list [], .nil, .list []], .node 5 [.list [], .nil, .list []]], .node 5 [.list [], .nil, .list []], .list [.node 5 [.list [], .nil, .list []], .node 5 [.list [], .nil, .list []]]], .list [.node 5 [.list [.node 5 [.list [], .nil, .list []], .node 5 [.list [], .nil, .list []]], .node 5 [.list [], .nil, .list []], .list [.node 5 [.list [], .nil, .list []], .node 5 [.list [], .nil, .list []]]], .node 5 [.list [], .node 5 [.list [], .nil, .list []], .list [.node 5 [.list [], .nil, .list []], .node 5 [.list [], .nil, .list []]]]]], .acc),
+    (.node 5 [.node 5 [.list [.node 5 [.list [], .nil, .list []], .node 5 [.list [], .nil, .list []]], .node 5 [.list [], .nil, .list []], .list [.node 5 [.list [], .nil, .list []], .node 5 [.list [], .nil, .list []]]], .node 5 [.list [.node 5 [.list [], .nil, .list []], .node 5 [.list [], .nil, .list []]], .node 5 [.list [], .nil, .list []], .list [.node 5 [.list [], .nil, .list []], .node 5 [.list [], .nil, .list []]]], .list [.node 5 [.list [.node 5 [.list [], .nil, .list []], .node 5 [.list [], .nil, .list []]], .node 5 [.list [], .nil, .list []], .list [.node 5 [.list [], .nil, .list []], .node 5 [.list [], .nil, .list []]]], .node 5 [.list [.node 5 [.list [], .nil, .list []], .node 5 [.list [], .nil, .list []], .node 5 [.list [], .nil, .list []]], .node 5 [.list [], .nil, .list []], .list [.node 5 [.list [], .nil, .list []], .node 5 [.list [], .nil, .list []]]]]], .rej),
+    (.node 5 [.node 5 [.list [.node 5 [.list [], .nil, .list []], .node 5 [.list [], .nil, .list []]], .node 5 [.list [], .nil, .list []], .list [.node 5 [.list [], .nil, .list []], .node 5 [.list [], .nil, .list []]]], .node 5 [.list [.node 5 [.list [], .nil, .list []], .node 5 [.list [], .nil, .list []]], .node 5 [.list [], .nil, .list []], .list [.node 5 [.list [], .nil, .list []], .node 5 [.list [], .nil, .list []]]], .list [.node 5 [.list [.node 5 [.list [], .nil, .list []], .node 5 [.list [], .nil, .list []]], .node 5 [.list [], .nil, .list []], .list [.node 5 [.list [], .nil, .list []], .node 5 [.list [], .nil, .list []]]], .node 5 [.list [.node 1 [.list [], .nil, .list []], .node 5 [.list [], .nil, .list []]], .node 5 [.list [], .nil, .list []], .list [.node 5 [.list [], .nil, .list []], .node 5 [.list [], .nil, .list []]]]]], .acc),
+    (.node 5 [.node 5 [.list [.node 5 [.list [], .nil, .list []], .node 5 [.list [], .nil, .list []]], .node 5 [.list [], .nil, .list []], .list [.node 5 [.list [], .nil, .list []], .node 5 [.list [], .nil, .list []]]], .node 5 [.list [.node 5 [.list [], .nil, .list []], .node 5 [.list [], .nil, .list []]], .node 5 [.list [], .nil, .list []], .list [.node 5 [.list [], .nil, .list []], .node 5 [.list [], .nil, .list []]]], .list [.node 5 [.list [.node 5 [.list [], .nil, .list []], .node 5 [.list [], .nil, .list []]], .node 5 [.list [], .nil, .list []], .list [.node 5 [.list [], .nil, .list []], .node 5 [.list [], .nil, .list []]]], .node 5 [.list [.node 5 [.nil, .nil, .list []], .node 5 [.list [], .nil, .list []]], .node 5 [.list [], .nil, .list []], .list [.node 5 [.list [], .nil, .list []], .node 5 [.list [], .nil, .list []]]]]], .acc),
+    (.node 5 [.node 5 [.list [.node 5 [.list [], .nil, .list []], .node 5 [.list [], .nil, .list []]], .node 5 [.list [], .nil, .list []], .list [.node 5 [.list [], .nil, .list []], .node 5 [.list [], .nil, .list []]]], .node 5 [.list [.node 5 [.list [], .nil, .list []], .node 5 [.list [], .nil, .list []]], .node 5 [.list [], .nil, .list []], .list [.node 5 [.list [], .nil, .list []], .node 5 [.list [], .nil, .list []]]], .list [.node 5 [.list [.node 5 [.list [], .nil, .list []], .node 5 [.list [], .nil, .list []]], .node 5 [.list [], .nil, .list []], .list [.node 5 [.list [], .nil, .list []], .node 5 [.list [], .nil, .list []]]], .node 5 [.list [.node 5 [.list [], .nil, .nil], .node 5 [.list [], .nil, .list []]], .node 5 [.list [], .nil, .list []], .list [.node 5 [.list [], .nil, .list []], .node 5 [.list [], .nil, .list []]]]]], .acc),
+    (.node 5 [.node 5 [.list [.node 5 [.list [], .nil, .list []], .node 5 [.list [], .nil, .list []]], .node 5 [.list [], .nil, .list []], .list [.node 5 [.list [], .nil, .list []], .node 5 [.list [], .nil, .list []]]], .node 5 [.list [.node 5 [.list [], .nil, .list []], .node 5 [.list [], .nil, .list []]], .node 5 [.list [], .nil, .list []], .list [.node 5 [.list [], .nil, .list []], .node 5 [.list [], .nil, .list []]]], .list [.node 5 [.list [.node 5 [.list [], .nil, .list []], .node 5 [.list [], .nil, .list []]], .node 5 [.list [], .nil, .list []], .list [.node 5 [.list [], .nil, .list []], .node 5 [.list [], .nil, .list []]]], .node 5 [.list [.node 5 [.list [], .nil, .list []], .node 1 [.list [], .nil, .list []]], .node 5 [.list [], .nil, .list []], .list [.node 5 [.list [], .nil, .list []], .node 5 [.list [], .nil, .list []]]]]], .acc),
+    (.node 5 [.node 5 [.list [.node 5 [.list [], .nil, .list []], .node 5 [.list [], .nil, .list []]], .node 5 [.list [], .nil, .list []], .list [.node 5 [.list [], .nil, .list []], .node 5 [.list [], .nil, .list []]]], .node 5 [.list [.node 5 [.list [], .nil, .list []], .node 5 [.list [], .nil, .list []]], .node 5 [.list [], .nil, .list []], .list [.node 5 [.list [], .nil, .list []], .node 5 [.list [], .nil, .list []]]], .list [.node 5 [.list [.node 5 [.list [], .nil, .list []], .node 5 [.list [], .nil, .list []]], .node 5 [.list [], .nil, .list []], .list [.node 5 [.list [], .nil, .list []], .node 5 [.list [], .nil, .list []]]], .node 5 [.list [.node 5 [.list [], .nil, .list []], .node 5 [.nil, .nil, .list []]], .node 5 [.list [], .nil, .list []], .list [.node 5 [.list [], .nil, .list []], .node 5 [.list [], .nil, .list []]]]]], .acc),
+    (.node 5 [.node 5 [.list [.node 5 [.list [], .nil, .list []], .node 5 [.list [], .nil, .list []]], .node 5 [.list [], .nil, .list []], .list [.node 5 [.list [], .nil, .list []], .node 5 [.list [], .nil, .list []]]], .node 5 [.list [.node 5 [.list [], .nil, .list []], .node 5 [.list [], .nil, .list []]], .node 5 [.list [], .nil, .list []], .list [.node 5 [.list [], .nil, .list []], .node 5 [.list [], .nil, .list []]]], .list [.node 5 [.list [.node 5 [.list [], .nil, .list []], .node 5 [.list [], .nil, .list []]], .node 5 [.list [], .nil, .list []], .list [.node 5 [.list [], .nil, .list []], .node 5 [.list [], .nil, .list []]]], .node 5 [.list [.node 5 [.list [], .nil, .list []], .node 5 [.list [], .nil, .nil]], .node 5 [.list [], .nil, .list []], .list [.node 5 [.list [], .nil, .list []], .node 5 [.list [], .nil, .list []]]]]], .acc),
+    (.node 5 [.node 5 [.list [.node 5 [.list [], .nil, .list []], .node 5 [.list [], .nil, .list []]], .node 5 [.list [], .nil, .list []], .list [.node 5 [.list [], .nil, .list []], .node 5 [.list [], .nil, .list []]]], .node 5 [.list [.node 5 [.list [], .nil, .list []], .node 5 [.list [], .nil, .list []]], .node 5 [.list [], .nil, .list []], .list [.node 5 [.list [], .nil, .list []], .node 5 [.list [], .nil, .list []]]], .list [.node 5 [.list [.node 5 [.list [], .nil, .list []], .node 5 [.list [], .nil, .list []]], .node 5 [.list [], .nil, .list []], .list [.node 5 [.list [], .nil, .list []], .node 5 [.list [], .nil, .list []]]], .node 5 [.list [.node 5 [.list [], .nil, .list []], .node 5 [.list [], .nil, .list []]], .nil, .list [.node 5 [.list [], .nil, .list []], .node 5 [.list [], .nil, .list []]]]]], .rej),
+    (.node 5 [.node 5 [.list [.node 5 [.list [], .nil, .list []], .node 5 [.list [], .nil, .list []]], .node 5 [.list [], .nil, .list []], .list [.node 5 [.list [], .nil, .list []], .node 5 [.list [], .nil, .list []]]], .node 5 [.list [.node 5 [.list [], .nil, .list []], .node 5 [.list [], .nil, .list []]], .node 5 [.list [], .nil, .list []], .list [.node 5 [.list [], .nil, .list []], .node 5 [.list [], .nil, .list []]]], .list [.node 5 [.list [.node 5 [.list [], .nil, .list []], .node 5 [.list [], .nil, .list []]], .node 5 [.list [], .nil, .list []], .list [.node 5 [.list [], .nil, .list []], .node 5 [.list [], .nil, .list []]]], .node 5 [.list [.node 5 [.list [], .nil, .list []], .node 5 [.list [], .nil, .list []]], .node 1 [.list [], .nil, .list []], .list [.node 5 [.list [], .nil, .list []], .node 5 [.list [], .nil, .list []]]]]], .acc),
+    (.node 5 [.node 5 [.list [.node 5 [.list [], .nil, .list []], .node 5 [.list [], .nil, .list []]], .node 5 [.list [], .nil, .list []], .list [.node 5 [.list [], .nil, .list []], .node 5 [.list [], .nil, .list []]]], .node 5 [.list [.node 5 [.list [], .nil, .list []], .node 5 [.list [], .nil, .list []]], .node 5 [.list [], .nil, .list []], .list [.node 5 [.list [], .nil, .list []], .node 5 [.list [], .nil, .list []]]], .list [.node 5 [.list [.node 5 [.list [], .nil, .list []], .node 5 [.list [], .nil, .list []]], .node 5 [.list [], .nil, .list []], .list [.node 5 [.list [], .nil, .list []], .node 5 [.list [], .nil, .list []]]], .node 5 [.list [.node 5 [.list [], .nil, .list []], .node 5 [.list [], .nil, .list []]], .node 5 [.nil, .nil, .list []], .list [.node 5 [.list [], .nil, .list []], .node 5 [.list [], .nil, .list []]]]]], .acc),
+    (.node 5 [.node 5 [.list [.node 5 [.list [], .nil, .list []], .node 5 [.list [], .nil, .list []]], .node 5 [.list [], .nil, .list []], .list [.node 5 [.list [], .nil, .list []], .node 5 [.list [], .nil, .list []]]], .node 5 [.list [.node 5 [.list [], .nil, .list []], .node 5 [.list [], .nil, .list []]], .node 5 [.list [], .nil, .list []], .list [.node 5 [.list [], .nil, .list []], .node 5 [.list [], .nil, .list []]]], .list [.node 5 [.list [.node 5 [.list [], .nil, .list []], .node 5 [.list [], .nil, .list []]], .node 5 [.list [], .nil, .list []], .list [.node 5 [.list [], .nil, .list []], .node 5 [.list [], .nil, .list []]]], .node 5 [.list [.node 5 [.list [], .nil, .list []], .node 5 [.list [], .nil, .list []]], .node 5 [.list [], .nil, .nil], .list [.node 5 [.list [], .nil, .list []], .node 5 [.list [], .nil, .list []]]]]], .acc),
+    (.node 5 [.node 5 [.list [.node 5 [.list [], .nil, .list []], .node 5 [.list [], .nil, .list []]], .node 5 [.list [], .nil, .list []], .list [.node 5 [.list [], .nil, .list []], .node 5 [.list [], .nil, .list []]]], .node 5 [.list [.node 5 [.list [], .nil, .list []], .node 5 [.list [], .nil, .list []]], .node 5 [.list [], .nil, .list []], .list [.node 5 [.list [], .nil, .list []], .node 5 [.list [], .nil, .list []]]], .list [.node 5 [.list [.node 5 [.list [], .nil, .list []], .node 5 [.list [], .nil, .list []]], .node 5 [.list [], .nil, .list []], .list [.node 5 [.list [], .nil, .list []], .node 5 [.list [], .nil, .list []]]], .node 5 [.list [.node 5 [.list [], .nil, .list []], .node 5 [.list [], .nil, .list []]], .node 5 [.list [], .nil, .list []], .nil]]], .rej),
+    (.node 5 [.node 5 [.list [.node 5 [.list [], .nil, .list []], .node 5 [.list [], .nil, .list []]], .node 5 [.list [], .nil, .list []], .list [.node 5 [.list [], .nil, .list []], .node 5 [.list [], .nil, .list []]]], .node 5 [.list [.node 5 [.list [], .nil, .list []], .node 5 [.list [], .nil, .list []]], .node 5 [.list [], .nil, .list []], .list [.node 5 [.list [], .nil, .list []], .node 5 [.list [], .nil, .list []]]], .list [.node 5 [.list [.node 5 [.list [], .nil, .list []], .node 5 [.list [], .nil, .list []]], .node 5 [.list [], .nil, .list []], .list [.node 5 [.list [], .nil, .list []], .node 5 [.list [], .nil, .list []]]], .node 5 [.list [.node 5 [.list [], .nil, .list []], .node 5 [.list [], .nil, .list []]], .node 5 [.list [], .nil, .list []], .list []]]], .acc),
+    (.node 5 [.node 5 [.list [.node 5 [.list [], .nil, .list []], .node 5 [.list [], .nil, .list []]], .node 5 [.list [], .nil, .list []], .list [.node 5 [.list [], .nil, .list []], .node 5 [.list [], .nil, .list []]]], .node 5 [.list [.node 5 [.list [], .nil, .list []], .node 5 [.list [], .nil, .list []]], .node 5 [.list [], .nil, .list []], .list [.node 5 [.list [], .nil, .list []], .node 5 [.list [], .nil, .list []]]], .list [.node 5 [.list [.node 5 [.list [], .nil, .list []], .node 5 [.list [], .nil, .list []]], .node 5 [.list [], .nil, .list []], .list [.node 5 [.list [], .nil, .list []], .node 5 [.list [], .nil, .list []]]], .node 5 [.list [.node 5 [.list [], .nil, .list []], .node 5 [.list [], .nil, .list []]], .node 5 [.list [], .nil, .list []], .list [.node 5 [.list [], .nil, .list []], .node 5 [.list [], .nil, .list []], .node 5 [.list [], .nil, .list []]]]]], .acc),
+    (.node 5 [.node 5 [.list [.node 5 [.list [], .nil, .list []], .node 5 [.list [], .nil, .list []]], .node 5 [.list [], .nil, .list []], .list [.node 5 [.list [], .nil, .list []], .node 5 [.list [], .nil, .list []]]], .node 5 [.list [.node 5 [.list [], .nil, .list []], .node 5 [.list [], .nil, .list []]], .node 5 [.list [], .nil, .list []], .list [.node 5 [.list [], .nil, .list []], .node 5 [.list [], .nil, .list []]]], .list [.node 5 [.list [.node 5 [.list [], .nil, .list []], .node 5 [.list [], .nil, .list []]], .node 5 [.list [], .nil, .list []], .list [.node 5 [.list [], .nil, .list []], .node 5 [.list [], .nil, .list []]]], .node 5 [.list [.node 5 [.list [], .nil, .list []], .node 5 [.list [], .nil, .list []]], .node 5 [.list [], .nil, .list []], .list [.node 1 [.list [], .nil, .list []], .node 5 [.list [], .nil, .list []]]]]], .acc),
+    (.node 5 [.node 5 [.list [.node 5 [.list [], .nil, .list []], .node 5 [.list [], .nil, .list []]], .node 5 [.list [], .nil, .list []], .list [.node 5 [.list [], .nil, .list []], .node 5 [.list [], .nil, .list []]]], .node 5 [.list [.node 5 [.list [], .nil, .list []], .node 5 [.list [], .nil, .list []]], .node 5 [.list [], .nil, .list []], .list [.node 5 [.list [], .nil, .list []], .node 5 [.list [], .nil, .list []]]], .list [.node 5 [.list [.node 5 [.list [], .nil, .list []], .node 5 [.list [], .nil, .list []]], .node 5 [.list [], .nil, .list []], .list [.node 5 [.list [], .nil, .list []], .node 5 [.list [], .nil, .list []]]], .node 5 [.list [.node 5 [.list [], .nil, .list []], .node 5 [.list [], .nil, .list []]], .node 5 [.list [], .nil, .list []], .list [.node 5 [.nil, .nil, .list []], .node 5 [.list [], .nil, .list []]]]]], .acc),
+    (.node 5 [.node 5 [.list [.node 5 [.list [], .nil, .list []], .node 5 [.list [], .nil, .list []]], .node 5 [.list [], .nil, .list []], .list [.node 5 [.list [], .nil, .list []], .node 5 [.list [], .nil, .list []]]], .node 5 [.list [.node 5 [.list [], .nil, .list []], .node 5 [.list [], .nil, .list []]], .node 5 [.list [], .nil, .list []], .list [.node 5 [.list [], .nil, .list []], .node 5 [.list [], .nil, .list []]]], .list [.node 5 [.list [.node 5 [.list [], .nil, .list []], .node 5 [.list [], .nil, .list []]], .node 5 [.list [], .nil, .list []], .list [.node 5 [.list [], .nil, .list []], .node 5 [.list [], .nil, .list []]]], .node 5 [.list [.node 5 [.list [], .nil, .list []], .node 5 [.list [], .nil, .list []]], .node 5 [.list [], .nil, .list []], .list [.node 5 [.list [], .nil, .nil], .node 5 [.list [], .nil, .list []]]]]], .acc),
+    (.node 5 [.node 5 [.list [.node 5 [.list [], .nil, .list []], .node 5 [.list [], .nil, .list []]], .node 5 [.list [], .nil, .list []], .list [.node 5 [.list [], .nil, .list []], .node 5 [.list [], .nil, .list []]]], .node 5 [.list [.node 5 [.list [], .nil, .list []], .node 5 [.list [], .nil, .list []]], .node 5 [.list [], .nil, .list []], .list [.node 5 [.list [], .nil, .list []], .node 5 [.list [], .nil, .list []]]], .list [.node 5 [.list [.node 5 [.list [], .nil, .list []], .node 5 [.list [], .nil, .list []]], .node 5 [.list [], .nil, .list []], .list [.node 5 [.list [], .nil, .list []], .node 5 [.list [], .nil, .list []]]], .node 5 [.list [.node 5 [.list [], .nil, .list []], .node 5 [.list [], .nil, .list []]], .node 5 [.list [], .nil, .list []], .list [.node 5 [.list [], .nil, .list []], .node 1 [.list [], .nil, .list []]]]]], .acc),
+    (.node 5 [.node 5 [.list [.node 5 [.list [], .nil, .list []], .node 5 [.list [], .nil, .list []]], .node 5 [.list [], .nil, .list []], .list [.node 5 [.list [], .nil, .list []], .node 5 [.list [], .nil, .list []]]], .node 5 [.list [.node 5 [.list [], .nil, .list []], .node 5 [.list [], .nil, .list []]], .node 5 [.list [], .nil, .list []], .list [.node 5 [.list [], .nil, .list []], .node 5 [.list [], .nil, .list []]]], .list [.node 5 [.list [.node 5 [.list [], .nil, .list []], .node 5 [.list [], .nil, .list []]], .node 5 [.list [], .nil, .list []], .list [.node 5 [.list [], .nil, .list []], .node 5 [.list [], .nil, .list []]]], .node 5 [.list [.node 5 [.list [], .nil, .list []], .node 5 [.list [], .nil, .list []]], .node 5 [.list [], .nil, .list []], .list [.node 5 [.list [], .nil, .list []], .node 5 [.nil, .nil, .list []]]]]], .acc),
+    (.node 5 [.node 5 [.list [.node 5 [.list [], .nil, .list []], .node 5 [.list [], .nil, .list []]], .node 5 [.list [], .nil, .list []], .list [.node 5 [.list [], .nil, .list []], .node 5 [.list [], .nil, .list []]]], .node 5 [.list [.node 5 [.list [], .nil, .list []], .node 5 [.list [], .nil, .list []]], .node 5 [.list [], .nil, .list []], .list [.node 5 [.list [], .nil, .list []], .node 5 [.list [], .nil, .list []]]], .list [.node 5 [.list [.node 5 [.list [], .nil, .list []], .node 5 [.list [], .nil, .list []]], .node 5 [.list [], .nil, .list []], .list [.node 5 [.list [], .nil, .list []], .node 5 [.list [], .nil, .list []]]], .node 5 [.list [.node 5 [.list [], .nil, .list []], .node 5 [.list [], .nil, .list []]], .node 5 [.list [], .nil, .list []], .list [.node 5 [.list [], .nil, .list []], .node 5 [.list [], .nil, .nil]]]]], .acc)
+  ]
+
+def graphRow93 : GRow where
   name := "rec_map"
   env := [⟨some 3, [⟨.map, 0, .required⟩]⟩]
   built := true
@@ -1429,7 +1569,7 @@ def graphRow91 : GRow where
     (.node 5 [.list [.node 5 [.nil]]], .acc)
   ]
 
-def graphRow92 : GRow where
+def graphRow94 : GRow where
   name := "rec_mapptr"
   env := [⟨some 3, [⟨.mapptr, 0, .required⟩]⟩]
   built := true
@@ -1442,7 +1582,7 @@ def graphRow92 : GRow where
     (.node 5 [.list [.node 5 [.nil]]], .acc)
   ]
 
-def graphRow93 : GRow where
+def graphRow95 : GRow where
   name := "rec_map_below"
   env := [⟨some 3, [⟨.val, 1, .required⟩]⟩, ⟨some 3, [⟨.map, 1, .required⟩]⟩]
   built := true
@@ -1456,6 +1596,6 @@ def graphRow93 : GRow where
     (.node 5 [.node 5 [.list [.node 5 [.nil]]]], .acc)
   ]
 
-def graphTable : List GRow := [graphRow0, graphRow1, graphRow2, graphRow3, graphRow4, graphRow5, graphRow6, graphRow7, graphRow8, graphRow9, graphRow10, graphRow11, graphRow12, graphRow13, graphRow14, graphRow15, graphRow16, graphRow17, graphRow18, graphRow19, graphRow20, graphRow21, graphRow22, graphRow23, graphRow24, graphRow25, graphRow26, graphRow27, graphRow28, graphRow29, graphRow30, graphRow31, graphRow32, graphRow33, graphRow34, graphRow35, graphRow36, graphRow37, graphRow38, graphRow39, graphRow40, graphRow41, graphRow42, graphRow43, graphRow44, graphRow45, graphRow46, graphRow47, graphRow48, graphRow49, graphRow50, graphRow51, graphRow52, graphRow53, graphRow54, graphRow55, graphRow56, graphRow57, graphRow58, graphRow59, graphRow60, graphRow61, graphRow62, graphRow63, graphRow64, graphRow65, graphRow66, graphRow67, graphRow68, graphRow69, graphRow70, graphRow71, graphRow72, graphRow73, graphRow74, graphRow75, graphRow76, graphRow77, graphRow78, graphRow79, graphRow80, graphRow81, graphRow82, graphRow83, graphRow84, graphRow85, graphRow86, graphRow87, graphRow88, graphRow89, graphRow90, graphRow91, graphRow92, graphRow93]
+def graphTable : List GRow := [graphRow0, graphRow1, graphRow2, graphRow3, graphRow4, graphRow5, graphRow6, graphRow7, graphRow8, graphRow9, graphRow10, graphRow11, graphRow12, graphRow13, graphRow14, graphRow15, graphRow16, graphRow17, graphRow18, graphRow19, graphRow20, graphRow21, graphRow22, graphRow23, graphRow24, graphRow25, graphRow26, graphRow27, graphRow28, graphRow29, graphRow30, graphRow31, graphRow32, graphRow33, graphRow34, graphRow35, graphRow36, graphRow37, graphRow38, graphRow39, graphRow40, graphRow41, graphRow42, graphRow43, graphRow44, graphRow45, graphRow46, graphRow47, graphRow48, graphRow49, graphRow50, graphRow51, graphRow52, graphRow53, graphRow54, graphRow55, graphRow56, graphRow57, graphRow58, graphRow59, graphRow60, graphRow61, graphRow62, graphRow63, graphRow64, graphRow65, graphRow66, graphRow67, graphRow68, graphRow69, graphRow70, graphRow71, graphRow72, graphRow73, graphRow74, graphRow75, graphRow76, graphRow77, graphRow78, graphRow79, graphRow80, graphRow81, graphRow82, graphRow83, graphRow84, graphRow85, graphRow86, graphRow87, graphRow88, graphRow89, graphRow90, graphRow91, graphRow92, graphRow93, graphRow94, graphRow95]
 
 end Gozod.Gen
